@@ -1,96 +1,2085 @@
 /-
-  C11: the Layer life cycle around the view, and Layer.Files.
+  C01 — lemmas for the composition theorem index = scan ∘ flatten
+  (Model/LayerFS.lean).  Core Lean only.
 -/
 import ClairModel.Model.LayerFS
-set_option linter.unusedSimpArgs false
-set_option linter.unusedVariables false
-namespace ClairModel.TarFS
+import ClairModel.Proofs.Coalesce
+import ClairModel.Proofs.PathsC01
 
-theorem layerInit_view (mt : String) (ms : List Member) (fs : FS)
-    (hmt : mt ∈ tarMediaTypes) (hnew : newFS ms = .ok fs) :
-    layerInit {} mt true ms = ({ init := true, closed := false, sys := some fs, rd := true }, none) := by
-  have hc : mediaClass mt = .tar := by
-    simp [mediaClass, List.contains_iff_mem, hmt]
-  simp [layerInit, hc, hnew]
+namespace ClairModel.LayerFS
+open ClairModel.Coalesce
 
-theorem layerInit_reject (mt : String) (ms : List Member) (e : Err)
-    (hmt : mt ∈ tarMediaTypes) (hnew : newFS ms = .error e) :
-    layerInit {} mt true ms = ({ init := false, closed := false, sys := none, rd := true }, some (.view e)) := by
-  have hc : mediaClass mt = .tar := by
-    simp [mediaClass, List.contains_iff_mem, hmt]
-  simp [layerInit, hc, hnew]
+/-! ### `present`: the newest layer holding the file decides, unless a newer layer hides it -/
 
-theorem layerInit_other (mt : String) (ms : List Member) (hmt : mt ∉ tarMediaTypes) :
-    (layerInit {} mt true ms).2 = some .media ∧ (layerInit {} mt true ms).1.init = false := by
-  have hc : mediaClass mt ≠ .tar := by
-    simp only [mediaClass, List.contains_iff_mem, hmt, if_false]
-    split <;> simp
-  unfold layerInit
-  simp only
-  cases h : mediaClass mt with
-  | tar => exact absurd h hc
-  | dirfs => simp
-  | unknown => simp
+theorem presentRev_some_iff (ls : List FSLayer) (q c : String) :
+    presentRev ls q = some c ↔
+      ∃ newer l older, ls = newer ++ l :: older ∧ fileOf l q = some c ∧
+        ∀ l' ∈ newer, fileOf l' q = none ∧ hides l' q = false := by
+  induction ls with
+  | nil => simp [presentRev]
+  | cons l0 rest ih =>
+    simp only [presentRev]
+    cases hf : fileOf l0 q with
+    | some c0 =>
+      simp only [Option.some.injEq]
+      constructor
+      · intro h; subst h
+        exact ⟨[], l0, rest, rfl, hf, by simp⟩
+      · rintro ⟨newer, l, older, h1, h2, h3⟩
+        cases newer with
+        | nil =>
+          simp only [List.nil_append, List.cons.injEq] at h1
+          rw [← h1.1, hf] at h2; exact Option.some.inj h2
+        | cons x n' =>
+          simp only [List.cons_append, List.cons.injEq] at h1
+          have := (h3 x List.mem_cons_self).1
+          rw [← h1.1, hf] at this; simp at this
+    | none =>
+      simp only
+      by_cases hh : hides l0 q = true
+      · simp only [hh, if_true]
+        constructor
+        · intro h; simp at h
+        · rintro ⟨newer, l, older, h1, h2, h3⟩
+          cases newer with
+          | nil =>
+            simp only [List.nil_append, List.cons.injEq] at h1
+            rw [← h1.1, hf] at h2; simp at h2
+          | cons x n' =>
+            simp only [List.cons_append, List.cons.injEq] at h1
+            have := (h3 x List.mem_cons_self).2
+            rw [← h1.1, hh] at this; simp at this
+      · simp only [hh, Bool.false_eq_true, if_false]
+        rw [ih]
+        constructor
+        · rintro ⟨newer, l, older, h1, h2, h3⟩
+          refine ⟨l0 :: newer, l, older, by simp [h1], h2, ?_⟩
+          intro l' hl'
+          rcases List.mem_cons.1 hl' with h | h
+          · subst h; exact ⟨hf, by simpa using hh⟩
+          · exact h3 l' h
+        · rintro ⟨newer, l, older, h1, h2, h3⟩
+          cases newer with
+          | nil =>
+            simp only [List.nil_append, List.cons.injEq] at h1
+            rw [← h1.1, hf] at h2; simp at h2
+          | cons x n' =>
+            simp only [List.cons_append, List.cons.injEq] at h1
+            exact ⟨n', l, older, h1.2, h2, fun l' hl' => h3 l' (List.mem_cons_of_mem _ hl')⟩
 
-theorem layerInit_twice (st : LayerSt) (mt : String) (d : Bool) (ms : List Member) (h : st.init = true) :
-    layerInit st mt d ms = (st, some .twice) := by
-  simp [layerInit, h]
+/-- `present`, in application order: some layer has the file and no later layer rewrites or hides it. -/
+theorem present_some_iff (layers : List FSLayer) (q c : String) :
+    present layers q = some c ↔
+      ∃ pre l post, layers = pre ++ l :: post ∧ fileOf l q = some c ∧
+        ∀ l' ∈ post, fileOf l' q = none ∧ hides l' q = false := by
+  unfold present
+  rw [presentRev_some_iff]
+  constructor
+  · rintro ⟨newer, l, older, h1, h2, h3⟩
+    refine ⟨older.reverse, l, newer.reverse, ?_, h2, fun l' hl' => h3 l' (List.mem_reverse.1 hl')⟩
+    have := congrArg List.reverse h1
+    simpa using this
+  · rintro ⟨pre, l, post, h1, h2, h3⟩
+    refine ⟨post.reverse, l, pre.reverse, ?_, h2, fun l' hl' => h3 l' (List.mem_reverse.1 hl')⟩
+    rw [h1]; simp
 
-theorem layerClose_once (st : LayerSt) (hi : st.init = true) (hc : st.closed = false) :
-    (layerClose st).2 = .ok ∧ (layerClose (layerClose st).1).2 = .panic ∧
-      layerFS (layerClose st).1 = layerFS st := by
-  simp [layerClose, hi, hc, layerFS]
+theorem fileOf_some {l : FSLayer} {q c : String} (h : fileOf l q = some c) :
+    (q, Entry.file c) ∈ l.entries ∧ isWhiteout q = false := by
+  unfold fileOf at h
+  cases hf : l.entries.find? (fun e => e.1 = q) with
+  | none => simp [hf] at h
+  | some e =>
+    obtain ⟨p, en⟩ := e
+    have hp : p = q := by simpa using List.find?_some hf
+    have hm := List.mem_of_find?_eq_some hf
+    subst hp
+    cases en with
+    | dir => simp [hf] at h
+    | file c0 =>
+      simp only [hf] at h
+      by_cases hw : isWhiteout p = true
+      · simp [hw] at h
+      · simp only [hw, Bool.false_eq_true, if_false, Option.some.injEq] at h
+        subst h
+        exact ⟨hm, by simpa using hw⟩
 
-theorem layer_uninit (st : LayerSt) (h : st.init = false) :
-    layerFS st = .error .uninit ∧ layerReader st = some .uninit ∧ (layerClose st).2 = .err := by
-  simp [layerFS, layerReader, layerClose, h]
+theorem mem_dedup (x : String) (xs : List String) : x ∈ dedup xs ↔ x ∈ xs := by
+  induction xs with
+  | nil => simp [dedup]
+  | cons y ys ih =>
+    simp only [dedup]
+    by_cases h : ys.contains y = true
+    · simp only [h, if_true, ih, List.mem_cons]
+      constructor
+      · intro hx; exact Or.inr hx
+      · rintro (hx | hx)
+        · subst hx; simpa using h
+        · exact hx
+    · simp only [h, Bool.false_eq_true, if_false, List.mem_cons, ih]
 
-/-- Everything `Layer.Files` returns was asked for and is what `fs.ReadFile`
-    yields for that name; no name is returned twice. -/
-theorem filesWalk_sound (fs : FS) : ∀ (items : List WalkItem) (want : List Bytes) (acc out : List (Bytes × Bytes)),
-    filesWalk fs items want acc = .ok out →
-    ∀ x ∈ out, x ∈ acc ∨ (x.1 ∈ want ∧ readFileFS fs x.1 = .ok x.2) := by
-  intro items
-  induction items with
+theorem mem_flatten_iff (layers : List FSLayer) (q c : String) :
+    (q, c) ∈ flatten layers ↔ present layers q = some c := by
+  unfold flatten
+  rw [List.mem_filterMap]
+  constructor
+  · rintro ⟨q', _, h⟩
+    cases hp : present layers q' with
+    | none => simp [hp] at h
+    | some c' => simp [hp] at h; rw [← h.1, ← h.2]; exact hp
+  · intro h
+    refine ⟨q, ?_, by simp [h]⟩
+    obtain ⟨pre, l, post, h1, h2, _⟩ := (present_some_iff layers q c).1 h
+    unfold filePaths
+    rw [mem_dedup, List.mem_flatMap]
+    refine ⟨l, by rw [h1]; simp, ?_⟩
+    rw [List.mem_filterMap]
+    exact ⟨(q, Entry.file c), (fileOf_some h2).1, rfl⟩
+
+/-! ### layer order: `layerSorter` on a manifest without duplicate digests -/
+
+theorem sorterGo_notin (h : String) (l : List String) (i acc : Nat) (hn : h ∉ l) : sorterIdx.go h l i acc = acc := by
+  induction l generalizing i acc with
+  | nil => rfl
+  | cons x l ih =>
+    simp only [sorterIdx.go]
+    have hx : ¬ x = h := fun e => hn (e ▸ List.mem_cons_self)
+    simp only [hx, if_false]
+    exact ih _ _ (fun hm => hn (List.mem_cons_of_mem _ hm))
+
+theorem sorterGo_split (h : String) (pre post : List String) (i acc : Nat) (hn : h ∉ post) :
+    sorterIdx.go h (pre ++ h :: post) i acc = i + pre.length := by
+  induction pre generalizing i acc with
   | nil =>
-    intro want acc out h x hx
-    simp only [filesWalk, Except.ok.injEq] at h
+    simp only [List.nil_append, sorterIdx.go, if_true, List.length_nil, Nat.add_zero]
+    exact sorterGo_notin h post _ _ hn
+  | cons x pre ih =>
+    simp only [List.cons_append, sorterIdx.go, List.length_cons]
+    rw [ih]; omega
+
+theorem sorterIdx_split (h : String) (pre post : List String) (hn : h ∉ post) :
+    sorterIdx (pre ++ h :: post) h = pre.length := by
+  unfold sorterIdx; rw [sorterGo_split h pre post 0 0 hn]; simp
+
+theorem exists_last_occurrence {a : String} {l : List String} (h : a ∈ l) : ∃ p1 p2, l = p1 ++ a :: p2 ∧ a ∉ p2 := by
+  induction l with
+  | nil => simp at h
+  | cons x l ih =>
+    by_cases hl : a ∈ l
+    · obtain ⟨p1, p2, h1, h2⟩ := ih hl
+      exact ⟨x :: p1, p2, by simp [h1], h2⟩
+    · rcases List.mem_cons.1 h with h1 | h1
+      · subst h1; exact ⟨[], l, rfl, hl⟩
+      · exact absurd h1 hl
+
+/-- a layer after the last occurrence of `b` is a child of `b` … -/
+theorem later_of_mem_post {pre post : List String} {a b : String} (hb : b ∉ post) (ha : a ∈ post) :
+    sorterIdx (pre ++ b :: post) a > sorterIdx (pre ++ b :: post) b := by
+  obtain ⟨p1, p2, hp, ha2⟩ := exists_last_occurrence ha
+  have hbi : sorterIdx (pre ++ b :: post) b = pre.length := sorterIdx_split b pre post hb
+  have : pre ++ b :: post = (pre ++ b :: p1) ++ a :: p2 := by rw [hp]; simp
+  rw [hbi, this, sorterIdx_split a _ p2 ha2]
+  simp
+
+/-- … and `b` itself, or a layer before it that does not occur again later, is not. -/
+theorem not_later_of_mem_pre {pre post : List String} {a b : String} (hb : b ∉ post) (ha2 : a ∉ post)
+    (ha : a ∈ pre ∨ a = b) :
+    ¬ sorterIdx (pre ++ b :: post) a > sorterIdx (pre ++ b :: post) b := by
+  have hbi : sorterIdx (pre ++ b :: post) b = pre.length := sorterIdx_split b pre post hb
+  by_cases hab : a = b
+  · subst hab; omega
+  · rcases ha with ha | ha
+    · obtain ⟨p1, p2, hp, hp2⟩ := exists_last_occurrence ha
+      have hnot : a ∉ p2 ++ b :: post := by
+        intro hm
+        rcases List.mem_append.1 hm with h | h
+        · exact hp2 h
+        · rcases List.mem_cons.1 h with h | h
+          · exact hab h
+          · exact ha2 h
+      have : pre ++ b :: post = p1 ++ a :: (p2 ++ b :: post) := by rw [hp]; simp
+      rw [hbi, this, sorterIdx_split a p1 _ hnot, hp]
+      simp
+    · exact absurd ha hab
+
+theorem count_one_split {hs pre post : List String} {h : String} (hdec : hs = pre ++ h :: post)
+    (hc : hs.count h = 1) : h ∉ pre ∧ h ∉ post := by
+  rw [hdec, List.count_append, List.count_cons_self] at hc
+  have h1 : List.count h pre = 0 := by omega
+  have h2 : List.count h post = 0 := by omega
+  exact ⟨List.count_eq_zero.1 h1, List.count_eq_zero.1 h2⟩
+
+/-! ### the language coalescer, exactly: per id, the last layer (with a repository) holding it -/
+
+def lastPkg (id : String) : List Pkg → Option Pkg
+  | [] => none
+  | p :: rest =>
+    match lastPkg id rest with
+    | some x => some x
+    | none => if p.id = id then some p else none
+
+def lastLang (id : String) : List Layer → Option (Layer × Pkg)
+  | [] => none
+  | a :: rest =>
+    match lastLang id rest with
+    | some x => some x
+    | none => if a.repos.isEmpty then none else (lastPkg id a.pkgs).map fun p => (a, p)
+
+theorem lastPkg_some {id : String} {pkgs : List Pkg} {p : Pkg} (h : lastPkg id pkgs = some p) : p ∈ pkgs ∧ p.id = id := by
+  induction pkgs with
+  | nil => simp [lastPkg] at h
+  | cons q rest ih =>
+    simp only [lastPkg] at h
+    cases hr : lastPkg id rest with
+    | some x =>
+      simp only [hr, Option.some.injEq] at h; subst h
+      exact ⟨List.mem_cons_of_mem _ (ih hr).1, (ih hr).2⟩
+    | none =>
+      simp only [hr] at h
+      by_cases hq : q.id = id
+      · simp only [hq, if_true, Option.some.injEq] at h; subst h; exact ⟨List.mem_cons_self, hq⟩
+      · simp [hq] at h
+
+theorem lastPkg_none {id : String} {pkgs : List Pkg} : lastPkg id pkgs = none ↔ ∀ p ∈ pkgs, p.id ≠ id := by
+  induction pkgs with
+  | nil => simp [lastPkg]
+  | cons q rest ih =>
+    simp only [lastPkg]
+    cases hr : lastPkg id rest with
+    | some x =>
+      simp only [reduceCtorEq, false_iff]
+      intro hall
+      have := ih.2 (fun p hp => hall p (List.mem_cons_of_mem _ hp))
+      rw [hr] at this; simp at this
+    | none =>
+      simp only
+      have hrest := ih.1 hr
+      by_cases hq : q.id = id
+      · simp only [hq, if_true, reduceCtorEq, false_iff]
+        intro hall; exact hall q List.mem_cons_self hq
+      · simp only [hq, if_false, true_iff]
+        intro p hp
+        rcases List.mem_cons.1 hp with h | h
+        · subst h; exact hq
+        · exact hrest p h
+
+theorem lastLang_some {id : String} {arts : List Layer} {a : Layer} {p : Pkg} (h : lastLang id arts = some (a, p)) :
+    ∃ pre post, arts = pre ++ a :: post ∧ a.repos.isEmpty = false ∧ lastPkg id a.pkgs = some p ∧
+      lastLang id post = none := by
+  induction arts with
+  | nil => simp [lastLang] at h
+  | cons b rest ih =>
+    simp only [lastLang] at h
+    cases hr : lastLang id rest with
+    | some x =>
+      simp only [hr, Option.some.injEq] at h; subst h
+      obtain ⟨pre, post, h1, h2, h3, h4⟩ := ih hr
+      exact ⟨b :: pre, post, by simp [h1], h2, h3, h4⟩
+    | none =>
+      simp only [hr] at h
+      by_cases hb : b.repos.isEmpty = true
+      · simp [hb] at h
+      · simp only [hb, Bool.false_eq_true, if_false] at h
+        cases hl : lastPkg id b.pkgs with
+        | none => simp [hl] at h
+        | some q =>
+          simp only [hl, Option.map_some, Option.some.injEq, Prod.mk.injEq] at h
+          obtain ⟨h1, h2⟩ := h; subst h1; subst h2
+          exact ⟨[], rest, rfl, by simpa using hb, hl, hr⟩
+
+theorem lastLang_none {id : String} {arts : List Layer} :
+    lastLang id arts = none ↔ ∀ a ∈ arts, a.repos.isEmpty = true ∨ lastPkg id a.pkgs = none := by
+  induction arts with
+  | nil => simp [lastLang]
+  | cons b rest ih =>
+    simp only [lastLang]
+    cases hr : lastLang id rest with
+    | some x =>
+      simp only [reduceCtorEq, false_iff]
+      intro hall
+      have := ih.2 (fun a ha => hall a (List.mem_cons_of_mem _ ha))
+      rw [hr] at this; simp at this
+    | none =>
+      simp only
+      have hrest := ih.1 hr
+      by_cases hb : b.repos.isEmpty = true
+      · simp only [hb, if_true, true_iff]
+        intro a ha
+        rcases List.mem_cons.1 ha with h | h
+        · subst h; exact Or.inl hb
+        · exact hrest a h
+      · simp only [hb, Bool.false_eq_true, if_false]
+        cases hl : lastPkg id b.pkgs with
+        | none =>
+          simp only [Option.map_none, true_iff]
+          intro a ha
+          rcases List.mem_cons.1 ha with h | h
+          · subst h; exact Or.inr hl
+          · exact hrest a h
+        | some q =>
+          simp only [Option.map_some, reduceCtorEq, false_iff]
+          intro hall
+          rcases hall b List.mem_cons_self with h | h
+          · exact hb h
+          · rw [hl] at h; simp at h
+
+theorem langLayerPkgs_get (a : Layer) (rs : List String) (pkgs : List Pkg) (ir : Report) (id : String) :
+    aget id (langLayerPkgs a rs pkgs ir).envs =
+      (match lastPkg id pkgs with
+       | some p => some [{ db := p.db, intro := a.hash, repoIds := rs }]
+       | none => aget id ir.envs) ∧
+    aget id (langLayerPkgs a rs pkgs ir).pkgs =
+      (match lastPkg id pkgs with
+       | some p => some p
+       | none => aget id ir.pkgs) := by
+  induction pkgs generalizing ir with
+  | nil => simp [langLayerPkgs, lastPkg]
+  | cons p rest ih =>
+    simp only [langLayerPkgs, lastPkg]
+    obtain ⟨h1, h2⟩ := ih (ir.setPkgEnv p { db := p.db, intro := a.hash, repoIds := rs })
+    rw [h1, h2]
+    cases hr : lastPkg id rest with
+    | some x => simp
+    | none =>
+      simp only [Report.setPkgEnv, aget_aset]
+      by_cases hq : p.id = id <;> simp [hq]
+
+/-- the environment the language coalescers build for package `p` of layer `a` -/
+def langEnv (a : Layer) (p : Pkg) : Env := { db := p.db, intro := a.hash, repoIds := a.repos.map (·.id) }
+
+theorem langFold_get (arts : List Layer) (ir : Report) (id : String) :
+    aget id (langFold arts ir).envs =
+      (match lastLang id arts with
+       | some (a, p) => some [langEnv a p]
+       | none => aget id ir.envs) ∧
+    aget id (langFold arts ir).pkgs =
+      (match lastLang id arts with
+       | some (_, p) => some p
+       | none => aget id ir.pkgs) := by
+  induction arts generalizing ir with
+  | nil => simp [langFold, lastLang]
+  | cons a rest ih =>
+    simp only [langFold, lastLang]
+    by_cases hb : a.repos.isEmpty = true
+    · simp only [hb, if_true]
+      obtain ⟨h1, h2⟩ := ih ir
+      rw [h1, h2]
+      cases hr : lastLang id rest with
+      | some x => simp
+      | none => simp
+    · simp only [hb, Bool.false_eq_true, if_false]
+      obtain ⟨h1, h2⟩ := ih (langLayerPkgs a (a.repos.map (·.id)) a.pkgs { ir with repos := setRepos a.repos ir.repos })
+      rw [h1, h2]
+      cases hr : lastLang id rest with
+      | some x => simp
+      | none =>
+        obtain ⟨g1, g2⟩ := langLayerPkgs_get a (a.repos.map (·.id)) a.pkgs { ir with repos := setRepos a.repos ir.repos } id
+        simp only [g1, g2]
+        cases hl : lastPkg id a.pkgs with
+        | some q => simp [langEnv]
+        | none => simp
+
+theorem keysUniq_langLayerPkgs (a : Layer) (rs : List String) (pkgs : List Pkg) (ir : Report)
+    (h1 : KeysUniq ir.envs) (h2 : KeysUniq ir.pkgs) :
+    KeysUniq (langLayerPkgs a rs pkgs ir).envs ∧ KeysUniq (langLayerPkgs a rs pkgs ir).pkgs := by
+  induction pkgs generalizing ir with
+  | nil => exact ⟨h1, h2⟩
+  | cons p rest ih =>
+    simp only [langLayerPkgs]
+    exact ih _ (keysUniq_aset _ _ h1) (keysUniq_aset _ _ h2)
+
+theorem keysUniq_langFold (arts : List Layer) (ir : Report) (h1 : KeysUniq ir.envs) (h2 : KeysUniq ir.pkgs) :
+    KeysUniq (langFold arts ir).envs ∧ KeysUniq (langFold arts ir).pkgs := by
+  induction arts generalizing ir with
+  | nil => exact ⟨h1, h2⟩
+  | cons a rest ih =>
+    simp only [langFold]
+    by_cases hb : a.repos.isEmpty = true
+    · simp only [hb, if_true]; exact ih ir h1 h2
+    · simp only [hb, Bool.false_eq_true, if_false]
+      obtain ⟨g1, g2⟩ := keysUniq_langLayerPkgs a (a.repos.map (·.id)) a.pkgs { ir with repos := setRepos a.repos ir.repos } h1 h2
+      exact ih _ g1 g2
+
+/-! ### the whiteout coalescer's `Files` map -/
+
+def whFold (arts : List Layer) (m : List (String × File)) : List (String × File) :=
+  arts.foldl (fun m a => a.files.foldl (fun m f => aset a.hash f m) m) m
+
+theorem whInner_mem {h : String} {fs : List File} {m : List (String × File)} {k : String} {f : File}
+    (hm : (k, f) ∈ fs.foldl (fun m f => aset h f m) m) : (k, f) ∈ m ∨ (k = h ∧ f ∈ fs) := by
+  induction fs generalizing m with
+  | nil => exact Or.inl hm
+  | cons x fs ih =>
+    simp only [List.foldl_cons] at hm
+    rcases ih hm with h1 | ⟨h1, h2⟩
+    · rcases mem_aset h1 with ⟨hk, hv⟩ | h3
+      · right; exact ⟨hk, by rw [hv]; exact List.mem_cons_self⟩
+      · exact Or.inl h3
+    · right; exact ⟨h1, List.mem_cons_of_mem _ h2⟩
+
+/-- every entry of `Files` is a whiteout some layer's scan reported, stored under that layer's digest -/
+theorem whFold_mem {arts : List Layer} {m : List (String × File)} {k : String} {f : File}
+    (hm : (k, f) ∈ whFold arts m) : (k, f) ∈ m ∨ ∃ a ∈ arts, a.hash = k ∧ f ∈ a.files := by
+  unfold whFold at hm
+  induction arts generalizing m with
+  | nil => exact Or.inl hm
+  | cons a rest ih =>
+    simp only [List.foldl_cons] at hm
+    rcases ih hm with h1 | ⟨b, hb, h2, h3⟩
+    · rcases whInner_mem h1 with h4 | ⟨h4, h5⟩
+      · exact Or.inl h4
+      · right; exact ⟨a, List.mem_cons_self, h4.symm, h5⟩
+    · right; exact ⟨b, List.mem_cons_of_mem _ hb, h2, h3⟩
+
+theorem whInner_get_ne {h k : String} {fs : List File} {m : List (String × File)} (hne : h ≠ k) :
+    aget k (fs.foldl (fun m f => aset h f m) m) = aget k m := by
+  induction fs generalizing m with
+  | nil => rfl
+  | cons x fs ih => simp only [List.foldl_cons]; rw [ih, aget_aset_ne hne]
+
+theorem whFold_get_ne {arts : List Layer} {m : List (String × File)} {k : String} (hne : ∀ a ∈ arts, a.hash ≠ k) :
+    aget k (whFold arts m) = aget k m := by
+  unfold whFold
+  induction arts generalizing m with
+  | nil => rfl
+  | cons a rest ih =>
+    simp only [List.foldl_cons]
+    rw [ih (fun b hb => hne b (List.mem_cons_of_mem _ hb)), whInner_get_ne (hne a List.mem_cons_self)]
+
+/-- a layer with exactly one whiteout, in a manifest without duplicate digests, keeps it -/
+theorem whFold_single {pre post : List Layer} {a : Layer} {f : File} (m : List (String × File))
+    (hf : a.files = [f]) (hpost : ∀ b ∈ post, b.hash ≠ a.hash) :
+    (a.hash, f) ∈ whFold (pre ++ a :: post) m := by
+  apply mem_of_aget
+  unfold whFold
+  rw [List.foldl_append, List.foldl_cons]
+  have := whFold_get_ne (arts := post) (m := a.files.foldl (fun m f => aset a.hash f m)
+    (pre.foldl (fun m a => a.files.foldl (fun m f => aset a.hash f m) m) m)) hpost
+  unfold whFold at this
+  rw [this, hf]
+  simp [aget_aset_self]
+
+/-! ### MergeSR, exactly -/
+
+theorem keysUniq_foldl_aset {β : Type} (xs : List (String × β)) (m : List (String × β)) (h : KeysUniq m) :
+    KeysUniq (xs.foldl (fun m e => aset e.1 e.2 m) m) := by
+  induction xs generalizing m with
+  | nil => exact h
+  | cons x xs ih => exact ih _ (keysUniq_aset _ _ h)
+
+theorem keysUniq_foldl_aappend {β : Type} (xs : List (String × List β)) (m : List (String × List β)) (h : KeysUniq m) :
+    KeysUniq (xs.foldl (fun m e => aappend e.1 e.2 m) m) := by
+  induction xs generalizing m with
+  | nil => exact h
+  | cons x xs ih => exact ih _ (keysUniq_aset _ _ h)
+
+/-- the three maps of a report the composition theorem looks at have unique keys -/
+structure Uniq (r : Report) : Prop where
+  pkgs : KeysUniq r.pkgs
+  envs : KeysUniq r.envs
+  files : KeysUniq r.files
+
+theorem uniq_empty : Uniq {} := ⟨trivial, trivial, trivial⟩
+
+theorem uniq_mergeOne {src ir : Report} (h : Uniq src) : Uniq (mergeOne src ir) :=
+  ⟨keysUniq_foldl_aset _ _ h.pkgs, keysUniq_foldl_aappend _ _ h.envs, keysUniq_foldl_aset _ _ h.files⟩
+
+theorem uniq_mergeSR (rs : List Report) (src : Report) (h : Uniq src) : Uniq (mergeSR src rs) := by
+  unfold mergeSR
+  induction rs generalizing src with
+  | nil => exact h
+  | cons r rs ih => exact ih _ (uniq_mergeOne h)
+
+/-- an environment of the merged report comes from the source report or from one of the merged ones, and conversely -/
+theorem mergeSR_envs (rs : List Report) (src : Report) (hu : KeysUniq src.envs) (id : String) (e : Env) :
+    (∃ ws, aget id (mergeSR src rs).envs = some ws ∧ e ∈ ws) ↔
+      (∃ es, aget id src.envs = some es ∧ e ∈ es) ∨ ∃ r ∈ rs, ∃ es, (id, es) ∈ r.envs ∧ e ∈ es := by
+  unfold mergeSR
+  induction rs generalizing src with
+  | nil => simp
+  | cons r rs ih =>
+    simp only [List.foldl_cons]
+    rw [ih (mergeOne src r) (keysUniq_foldl_aappend _ _ hu)]
+    constructor
+    · rintro (⟨ws, h1, h2⟩ | ⟨r', hr', es, h1, h2⟩)
+      · obtain ⟨_, h3⟩ := foldl_aappend_from (mem_of_aget h1)
+        rcases h3 e h2 with ⟨vs, h4, h5⟩ | ⟨vs, h4, h5⟩
+        · exact Or.inl ⟨vs, aget_of_mem_uniq hu h4, h5⟩
+        · exact Or.inr ⟨r, List.mem_cons_self, vs, h4, h5⟩
+      · exact Or.inr ⟨r', List.mem_cons_of_mem _ hr', es, h1, h2⟩
+    · rintro (⟨es, h1, h2⟩ | ⟨r', hr', es, h1, h2⟩)
+      · obtain ⟨ws, h3, h4⟩ := foldl_aappend_src (xs := r.envs) h1
+        exact Or.inl ⟨ws, h3, h4 e h2⟩
+      · rcases List.mem_cons.1 hr' with h | h
+        · subst h
+          obtain ⟨ws, h3, h4⟩ := foldl_aappend_mem (src := src.envs) h1
+          exact Or.inl ⟨ws, h3, h4 e h2⟩
+        · exact Or.inr ⟨r', h, es, h1, h2⟩
+
+theorem mergeSR_pkgs_from (rs : List Report) (src : Report) (id : String) (p : Pkg)
+    (h : (id, p) ∈ (mergeSR src rs).pkgs) : (id, p) ∈ src.pkgs ∨ ∃ r ∈ rs, (id, p) ∈ r.pkgs := by
+  unfold mergeSR at h
+  induction rs generalizing src with
+  | nil => exact Or.inl h
+  | cons r rs ih =>
+    simp only [List.foldl_cons] at h
+    rcases ih _ h with h1 | ⟨r', hr', h1⟩
+    · rcases mem_foldl_aset h1 with h2 | h2
+      · exact Or.inl h2
+      · exact Or.inr ⟨r, List.mem_cons_self, h2⟩
+    · exact Or.inr ⟨r', List.mem_cons_of_mem _ hr', h1⟩
+
+theorem mergeSR_pkgs_has (rs : List Report) (src : Report) (id : String)
+    (h : (aget id src.pkgs).isSome ∨ ∃ r ∈ rs, ∃ p, (id, p) ∈ r.pkgs) : (aget id (mergeSR src rs).pkgs).isSome := by
+  unfold mergeSR
+  induction rs generalizing src with
+  | nil =>
+    rcases h with h | ⟨r, hr, _⟩
+    · exact h
+    · simp at hr
+  | cons r rs ih =>
+    simp only [List.foldl_cons]
+    apply ih
+    rcases h with h | ⟨r', hr', p, hp⟩
+    · exact Or.inl (isSome_foldl_aset_of_src h)
+    · rcases List.mem_cons.1 hr' with h1 | h1
+      · subst h1; exact Or.inl (isSome_foldl_aset_of_mem hp)
+      · exact Or.inr ⟨r', h1, p, hp⟩
+
+theorem mergeSR_files_from (rs : List Report) (src : Report) (k : String) (f : File)
+    (h : (k, f) ∈ (mergeSR src rs).files) : (k, f) ∈ src.files ∨ ∃ r ∈ rs, (k, f) ∈ r.files := by
+  unfold mergeSR at h
+  induction rs generalizing src with
+  | nil => exact Or.inl h
+  | cons r rs ih =>
+    simp only [List.foldl_cons] at h
+    rcases ih _ h with h1 | ⟨r', hr', h1⟩
+    · rcases mem_foldl_aset h1 with h2 | h2
+      · exact Or.inl h2
+      · exact Or.inr ⟨r, List.mem_cons_self, h2⟩
+    · exact Or.inr ⟨r', List.mem_cons_of_mem _ hr', h1⟩
+
+theorem aget_foldl_aset_of_mem_uniq {β : Type} {xs : List (String × β)} (src : List (String × β)) {k : String} {v : β}
+    (hu : KeysUniq xs) (hm : (k, v) ∈ xs) : aget k (xs.foldl (fun m e => aset e.1 e.2 m) src) = some v := by
+  induction xs generalizing src with
+  | nil => simp at hm
+  | cons x xs ih =>
+    obtain ⟨k0, v0⟩ := x
+    simp only [List.foldl_cons]
+    rcases List.mem_cons.1 hm with h | h
+    · cases h
+      -- no later entry has key k
+      have hnone : aget k xs = none := hu.1
+      have : ∀ (ys : List (String × β)) (m : List (String × β)), aget k ys = none → aget k m = some v →
+          aget k (ys.foldl (fun m e => aset e.1 e.2 m) m) = some v := by
+        intro ys
+        induction ys with
+        | nil => intro m _ hm; exact hm
+        | cons y ys ihy =>
+          intro m hy hm
+          obtain ⟨k1, v1⟩ := y
+          rw [aget_cons] at hy
+          by_cases hk : k1 = k
+          · simp [hk] at hy
+          · simp only [hk, if_false] at hy
+            simp only [List.foldl_cons]
+            exact ihy _ hy (by rw [aget_aset_ne hk]; exact hm)
+      exact this xs _ hnone (aget_aset_self _ _ _)
+    · exact ih _ hu.2 h
+
+/-- a file map entry of one merged report (with unique keys) survives when every later report has no files -/
+theorem mergeSR_files_last (rs : List Report) (src r : Report) (k : String) (f : File)
+    (hu : KeysUniq r.files) (hm : (k, f) ∈ r.files) : (k, f) ∈ (mergeSR src (rs ++ [r])).files := by
+  unfold mergeSR
+  rw [List.foldl_append]
+  simp only [List.foldl_cons, List.foldl_nil, mergeOne]
+  exact mem_of_aget (aget_foldl_aset_of_mem_uniq _ hu hm)
+
+/-! ### the resolver, exactly -/
+
+/-- the resolver's verdict for package `p` stored under `id` -/
+def delOf (layers : List String) (ir : Report) (id : String) (p : Pkg) : Bool :=
+  match aget id ir.envs with
+  | some (e0 :: es) => pkgDeleted layers ir.files p (pkgLayer layers es e0.intro)
+  | _ => false
+
+theorem resolveLoop_from (layers : List String) (ir : Report) (todo : List (String × Pkg)) (acc fin : Report)
+    (h : resolveLoop layers ir todo acc = some fin) (id : String) (p : Pkg) (hm : (id, p) ∈ fin.pkgs) :
+    (id, p) ∈ acc.pkgs ∨ ((id, p) ∈ todo ∧ delOf layers ir id p = false) := by
+  induction todo generalizing acc with
+  | nil => simp only [resolveLoop, Option.some.injEq] at h; subst h; exact Or.inl hm
+  | cons x rest ih =>
+    obtain ⟨k, q⟩ := x
+    simp only [resolveLoop] at h
+    cases hg : aget k ir.envs with
+    | none => simp [hg] at h
+    | some es0 =>
+      cases es0 with
+      | nil => simp [hg] at h
+      | cons e0 es =>
+        simp only [hg] at h
+        by_cases hd : pkgDeleted layers ir.files q (pkgLayer layers es e0.intro) = true
+        · simp only [hd, if_true] at h
+          rcases ih _ h with h1 | ⟨h1, h2⟩
+          · exact Or.inl h1
+          · exact Or.inr ⟨List.mem_cons_of_mem _ h1, h2⟩
+        · simp only [hd, Bool.false_eq_true, if_false] at h
+          rcases ih _ h with h1 | ⟨h1, h2⟩
+          · simp only at h1
+            rcases mem_aset h1 with ⟨hk, hv⟩ | hold
+            · right
+              subst hk; subst hv
+              refine ⟨List.mem_cons_self, ?_⟩
+              simp only [delOf, hg]
+              simpa using hd
+            · exact Or.inl hold
+          · exact Or.inr ⟨List.mem_cons_of_mem _ h1, h2⟩
+
+theorem resolveLoop_keep (layers : List String) (ir : Report) (todo : List (String × Pkg)) (acc fin : Report)
+    (h : resolveLoop layers ir todo acc = some fin) :
+    (∀ id, (aget id acc.pkgs).isSome → (aget id fin.pkgs).isSome) ∧
+    (∀ id p, (id, p) ∈ todo → (∃ e0 es, aget id ir.envs = some (e0 :: es)) → delOf layers ir id p = false →
+      (aget id fin.pkgs).isSome) := by
+  induction todo generalizing acc with
+  | nil => simp only [resolveLoop, Option.some.injEq] at h; subst h; exact ⟨fun _ h => h, by simp⟩
+  | cons x rest ih =>
+    obtain ⟨k, q⟩ := x
+    simp only [resolveLoop] at h
+    cases hg : aget k ir.envs with
+    | none => simp [hg] at h
+    | some es0 =>
+      cases es0 with
+      | nil => simp [hg] at h
+      | cons e0 es =>
+        simp only [hg] at h
+        by_cases hd : pkgDeleted layers ir.files q (pkgLayer layers es e0.intro) = true
+        · simp only [hd, if_true] at h
+          obtain ⟨i1, i2⟩ := ih _ h
+          refine ⟨i1, ?_⟩
+          intro id p hm hex hdel
+          rcases List.mem_cons.1 hm with h1 | h1
+          · cases h1
+            simp only [delOf, hg] at hdel
+            rw [hd] at hdel; simp at hdel
+          · exact i2 id p h1 hex hdel
+        · simp only [hd, Bool.false_eq_true, if_false] at h
+          obtain ⟨i1, i2⟩ := ih _ h
+          refine ⟨fun id hs => i1 id (aget_aset_isSome hs), ?_⟩
+          intro id p hm hex hdel
+          rcases List.mem_cons.1 hm with h1 | h1
+          · cases h1
+            exact i1 k (by simp [aget_aset_self])
+          · exact i2 id p h1 hex hdel
+
+/-- What `Resolve` keeps: exactly the ids whose package is not covered by a later whiteout, with
+    their environments unchanged. -/
+theorem resolve_exact {S : Prop} {B : String → Env → Prop} (layers : List String) (ir r : Report)
+    (hI : Inv S B ir) (hu : KeysUniq ir.pkgs) (h : resolve layers ir = some r) (id : String) :
+    (∀ es, aget id r.envs = some es →
+      aget id ir.envs = some es ∧ ∃ p, aget id ir.pkgs = some p ∧ delOf layers ir id p = false) ∧
+    (∀ p, aget id ir.pkgs = some p → delOf layers ir id p = false → aget id r.envs = aget id ir.envs) := by
+  unfold resolve at h
+  cases hl : resolveLoop layers ir ir.pkgs {} with
+  | none => simp [hl] at h
+  | some fin =>
+    simp only [hl, Option.some.injEq] at h
     subst h
-    exact Or.inl (by simpa using hx)
-  | cons it rest ih =>
-    intro want acc out h x hx
-    cases it with
-    | readErr p => simp [filesWalk] at h
-    | ent p t =>
-      simp only [filesWalk] at h
-      split at h
-      · exact ih want acc out h x hx
-      · split at h
-        · rename_i hw
-          cases hr : readFileFS fs p with
-          | error e => simp [hr] at h
-          | ok d =>
-            simp only [hr] at h
-            rcases ih _ _ out h x hx with hacc | ⟨hw', hrd⟩
-            · simp only [List.mem_cons] at hacc
-              rcases hacc with rfl | hacc
-              · exact Or.inr ⟨by simpa [List.contains_iff_mem] using hw, hr⟩
-              · exact Or.inl hacc
-            · exact Or.inr ⟨(List.mem_filter.1 hw').1, hrd⟩
-        · exact ih want acc out h x hx
+    obtain ⟨fin', hf', s1, s2⟩ := resolveLoop_spec layers ir hI ir.pkgs {} (fun _ _ h => h) (by simp) (by simp)
+    rw [hl] at hf'; cases hf'
+    constructor
+    · intro es hes
+      simp only at hes
+      obtain ⟨h1, h2⟩ := s2 id es (mem_of_aget hes)
+      refine ⟨h1, ?_⟩
+      cases hp : aget id fin.pkgs with
+      | none => simp [hp] at h2
+      | some p' =>
+        rcases resolveLoop_from layers ir ir.pkgs {} fin hl id p' (mem_of_aget hp) with h3 | ⟨h3, h4⟩
+        · simp at h3
+        · exact ⟨p', aget_of_mem_uniq hu h3, h4⟩
+    · intro p hp hdel
+      simp only
+      obtain ⟨_, es, hes, hne⟩ := hI.pkgEnv id p (mem_of_aget hp)
+      have hex : ∃ e0 es', aget id ir.envs = some (e0 :: es') := by
+        cases es with
+        | nil => exact absurd rfl hne
+        | cons e0 es' => exact ⟨e0, es', hes⟩
+      have := (resolveLoop_keep layers ir ir.pkgs {} fin hl).2 id p (mem_of_aget hp) hex hdel
+      cases hp' : aget id fin.pkgs with
+      | none => simp [hp'] at this
+      | some p' => exact (s1 id p' (mem_of_aget hp')).2
 
-theorem layerFiles_sound (fs : FS) (paths : List Bytes) (cap : Nat) (l : List (Bytes × Bytes))
-    (h : layerFiles fs paths cap = .found l) :
-    ∀ x ∈ l, x.1 ∈ paths.map normalizeIn ∧ readFileFS fs x.1 = .ok x.2 := by
-  unfold layerFiles at h
-  split at h
-  · cases h
-  · cases h
-  · rename_i l' hw
-    cases h
-    intro x hx
-    rcases filesWalk_sound fs _ _ [] _ hw x hx with hacc | hgood
-    · simp at hacc
-    · exact hgood
+/-! ### small list facts -/
 
-end ClairModel.TarFS
+theorem two_decomp {α : Type} {pre post pre' post' : List α} {l l' : α}
+    (h : pre ++ l :: post = pre' ++ l' :: post') :
+    (pre = pre' ∧ l = l' ∧ post = post') ∨ l' ∈ post ∨ l ∈ post' := by
+  induction pre generalizing pre' with
+  | nil =>
+    cases pre' with
+    | nil => simp at h; exact Or.inl ⟨rfl, h.1, h.2⟩
+    | cons x p' =>
+      simp at h
+      right; left; rw [h.2]; simp
+  | cons y p ih =>
+    cases pre' with
+    | nil =>
+      simp at h
+      right; right; rw [← h.2]; simp
+    | cons x p' =>
+      simp at h
+      rcases ih h.2 with ⟨h1, h2, h3⟩ | h1 | h1
+      · exact Or.inl ⟨by rw [h.1, h1], h2, h3⟩
+      · exact Or.inr (Or.inl h1)
+      · exact Or.inr (Or.inr h1)
+
+theorem map_decomp {α β : Type} {f : α → β} {xs : List α} {pre post : List β} {b : β}
+    (h : xs.map f = pre ++ b :: post) :
+    ∃ xpre x xpost, xs = xpre ++ x :: xpost ∧ xpre.map f = pre ∧ f x = b ∧ xpost.map f = post := by
+  induction pre generalizing xs with
+  | nil =>
+    cases xs with
+    | nil => simp at h
+    | cons x xs => simp at h; exact ⟨[], x, xs, rfl, rfl, h.1, h.2⟩
+  | cons y pre ih =>
+    cases xs with
+    | nil => simp at h
+    | cons x xs =>
+      simp at h
+      obtain ⟨xpre, x', xpost, h1, h2, h3, h4⟩ := ih h.2
+      exact ⟨x :: xpre, x', xpost, by simp [h1], by simp [h.1, h2], h3, h4⟩
+
+theorem lastMention_of_decomp {d : String} {pre post : List Layer} {a : Layer}
+    (ha : mentions d a = true) (hpost : ∀ b ∈ post, mentions d b = false) :
+    lastMention d (pre ++ a :: post) = some a := by
+  have hnone : lastMention d post = none := by
+    induction post with
+    | nil => rfl
+    | cons b post ih =>
+      simp only [lastMention, ih (fun c hc => hpost c (List.mem_cons_of_mem _ hc)), hpost b List.mem_cons_self]
+      simp
+  induction pre with
+  | nil => simp [lastMention, hnone, ha]
+  | cons x pre ih => simp [lastMention, ih]
+
+/-! ### the hypothesis of the composition theorem -/
+
+/-- `Tame S layers`: the layer stacks on which the indexer provably agrees with the flattened image.
+    Each clause is a restriction the unchanged code needs (see the `…_counterexample` theorems
+    and the recorded findings). -/
+structure Tame (S : Scanners) (layers : List FSLayer) : Prop where
+  /-- the digest is a function of the content: layers with one digest have the same entries
+      (a layer may occur any number of times in the manifest) -/
+  digests : ∀ l ∈ layers, ∀ l' ∈ layers, l.hash = l'.hash → l.entries = l'.entries
+  /-- a layer lists a path once -/
+  paths : ∀ l ∈ layers, (l.entries.map (·.1)).Nodup
+  /-- at most one whiteout entry per layer, and it is a regular file (finding whiteout-one-per-layer) -/
+  oneWhiteout : ∀ l ∈ layers, (whiteoutsOf l).length ≤ 1 ∧ whiteoutsOf l = whiteoutFiles l
+  /-- no opaque marker at the root of a layer (`fileIsDeleted` ignores it; everywhere else it is
+      the OCI cover relation, theorem `fileIsDeleted_eq_covers`) -/
+  noRootOpaque : ∀ l ∈ layers, ∀ w ∈ whiteoutsOf l, ¬ (base w = opqName ∧ dir w = ".")
+  /-- package files are hidden by whiteouts only (no file-replaces-directory games on their paths) -/
+  hidesSpec : ∀ l ∈ layers, ∀ l' ∈ layers, ∀ p ∈ allFilePkgs S l',
+    hides l p.fp = (whiteoutFiles l).any fun w => covers w p.fp
+  /-- an OS package database is never hidden and never lists nothing (findings os-db-removed, os-db-emptied) -/
+  osDb : ∀ d ∈ S.allDbs, ∀ l ∈ layers, hides l d = false ∧ ∀ c ∈ fileOf l d, S.scanDB d c ≠ []
+  /-- a package file is not overwritten by a later layer with other packages, unless that
+      layer also whites the old one out (finding lang-overwrite-in-place) -/
+  noOverwrite : ∀ E ∈ S.fecos, layers.Pairwise fun l l' => ∀ e ∈ l.entries, ∀ c ∈ fileOf l e.1, ∀ p ∈ E.scan e.1 c,
+    ∀ c' ∈ fileOf l' e.1, (∃ p' ∈ E.scan e.1 c', p'.id = p.id) ∨ hides l' e.1 = true
+  /-- within an ecosystem a package id lives at one path, in one package database
+      (finding lang-same-package-two-paths) -/
+  onePath : ∀ E ∈ S.fecos, ∀ l ∈ layers, ∀ l' ∈ layers, ∀ p ∈ filePkgs E l, ∀ p' ∈ filePkgs E l',
+    p.id = p'.id → p.fp = p'.fp ∧ p.db = p'.db
+  /-- OS package ids and file package ids are different (in the real store they differ in arch / kind) -/
+  disjoint : ∀ d ∈ S.allDbs, ∀ l ∈ layers, ∀ c ∈ fileOf l d, ∀ p ∈ S.scanDB d c,
+    ∀ l' ∈ layers, ∀ p' ∈ allFilePkgs S l', p.id ≠ p'.id
+  /-- two file ecosystems never find the same package id (finding lang-shared-id-across-ecosystems) -/
+  ecosApart : S.fecos.Pairwise (ecoApart layers)
+  /-- the package database of a Go executable's packages starts with `go:` (the gobin coalescer drops the others) -/
+  goDb : ∀ E ∈ S.fecos, E.gobin = true → ∀ l ∈ layers, ∀ p ∈ filePkgs E l, hasGoPrefix p.db = true
+
+/-- `Tame` is decidable: every clause is a bounded check over the stack. -/
+instance instDecidableTame (S : Scanners) (layers : List FSLayer) : Decidable (Tame S layers) :=
+  let A1 := ∀ l ∈ layers, ∀ l' ∈ layers, l.hash = l'.hash → l.entries = l'.entries
+  let A2 := ∀ l ∈ layers, (l.entries.map (·.1)).Nodup
+  let A3 := ∀ l ∈ layers, (whiteoutsOf l).length ≤ 1 ∧ whiteoutsOf l = whiteoutFiles l
+  let A4 := ∀ l ∈ layers, ∀ w ∈ whiteoutsOf l, ¬ (base w = opqName ∧ dir w = ".")
+  let A5 := ∀ l ∈ layers, ∀ l' ∈ layers, ∀ p ∈ allFilePkgs S l', hides l p.fp = (whiteoutFiles l).any fun w => covers w p.fp
+  let A6 := ∀ d ∈ S.allDbs, ∀ l ∈ layers, hides l d = false ∧ ∀ c ∈ fileOf l d, S.scanDB d c ≠ []
+  let A7 := ∀ E ∈ S.fecos, layers.Pairwise fun l l' => ∀ e ∈ l.entries, ∀ c ∈ fileOf l e.1, ∀ p ∈ E.scan e.1 c,
+      ∀ c' ∈ fileOf l' e.1, (∃ p' ∈ E.scan e.1 c', p'.id = p.id) ∨ hides l' e.1 = true
+  let A8 := ∀ E ∈ S.fecos, ∀ l ∈ layers, ∀ l' ∈ layers, ∀ p ∈ filePkgs E l, ∀ p' ∈ filePkgs E l',
+      p.id = p'.id → p.fp = p'.fp ∧ p.db = p'.db
+  let A9 := ∀ d ∈ S.allDbs, ∀ l ∈ layers, ∀ c ∈ fileOf l d, ∀ p ∈ S.scanDB d c,
+      ∀ l' ∈ layers, ∀ p' ∈ allFilePkgs S l', p.id ≠ p'.id
+  let A10 := S.fecos.Pairwise (ecoApart layers)
+  let A11 := ∀ E ∈ S.fecos, E.gobin = true → ∀ l ∈ layers, ∀ p ∈ filePkgs E l, hasGoPrefix p.db = true
+  have _d1 : Decidable A1 := inferInstance
+  have _d2 : Decidable A2 := inferInstance
+  have _d3 : Decidable A3 := inferInstance
+  have _d4 : Decidable A4 := inferInstance
+  have _d5 : Decidable A5 := inferInstance
+  have _d6 : Decidable A6 := inferInstance
+  have _d7 : Decidable A7 := inferInstance
+  have _d8 : Decidable A8 := inferInstance
+  have _d9 : Decidable A9 := inferInstance
+  have _d10 : Decidable A10 := inferInstance
+  have _d11 : Decidable A11 := inferInstance
+  have _e10 : Decidable (A10 ∧ A11) := instDecidableAnd
+  have _e9 : Decidable (A9 ∧ A10 ∧ A11) := instDecidableAnd
+  have _e8 : Decidable (A8 ∧ A9 ∧ A10 ∧ A11) := instDecidableAnd
+  have _e7 : Decidable (A7 ∧ A8 ∧ A9 ∧ A10 ∧ A11) := instDecidableAnd
+  have _e6 : Decidable (A6 ∧ A7 ∧ A8 ∧ A9 ∧ A10 ∧ A11) := instDecidableAnd
+  have _e5 : Decidable (A5 ∧ A6 ∧ A7 ∧ A8 ∧ A9 ∧ A10 ∧ A11) := instDecidableAnd
+  have _e4 : Decidable (A4 ∧ A5 ∧ A6 ∧ A7 ∧ A8 ∧ A9 ∧ A10 ∧ A11) := instDecidableAnd
+  have _e3 : Decidable (A3 ∧ A4 ∧ A5 ∧ A6 ∧ A7 ∧ A8 ∧ A9 ∧ A10 ∧ A11) := instDecidableAnd
+  have _e2 : Decidable (A2 ∧ A3 ∧ A4 ∧ A5 ∧ A6 ∧ A7 ∧ A8 ∧ A9 ∧ A10 ∧ A11) := instDecidableAnd
+  have _e1 : Decidable (A1 ∧ A2 ∧ A3 ∧ A4 ∧ A5 ∧ A6 ∧ A7 ∧ A8 ∧ A9 ∧ A10 ∧ A11) := instDecidableAnd
+  decidable_of_iff (A1 ∧ A2 ∧ A3 ∧ A4 ∧ A5 ∧ A6 ∧ A7 ∧ A8 ∧ A9 ∧ A10 ∧ A11)
+    ⟨fun ⟨a, b, c, d, e, f, g, h, i, j, k⟩ => ⟨a, b, c, d, e, f, g, h, i, j, k⟩,
+     fun ⟨a, b, c, d, e, f, g, h, i, j, k⟩ => ⟨a, b, c, d, e, f, g, h, i, j, k⟩⟩
+
+/-- the driver's Boolean check is the predicate `Tame` -/
+theorem tameB_iff (S : Scanners) (layers : List FSLayer) : tameB S layers = true ↔ Tame S layers := by
+  unfold tameB
+  simp only [Bool.and_eq_true, decide_eq_true_eq]
+  exact ⟨fun ⟨⟨⟨⟨⟨⟨⟨⟨⟨⟨a, b⟩, c⟩, d⟩, e⟩, f⟩, g⟩, h⟩, i⟩, j⟩, k⟩ => ⟨a, b, c, d, e, f, g, h, i, j, k⟩,
+    fun ⟨a, b, c, d, e, f, g, h, i, j, k⟩ => ⟨⟨⟨⟨⟨⟨⟨⟨⟨⟨a, b⟩, c⟩, d⟩, e⟩, f⟩, g⟩, h⟩, i⟩, j⟩, k⟩⟩
+
+theorem whiteoutsOf_isWhiteout {l : FSLayer} {w : String} (h : w ∈ whiteoutsOf l) : isWhiteout w = true := by
+  unfold whiteoutsOf at h
+  obtain ⟨e, _, he⟩ := List.mem_filterMap.1 h
+  cases hk : e.2 with
+  | file c =>
+    simp only [hk] at he
+    by_cases hw : isWhiteout e.1 = true
+    · simp only [hw, if_true, Option.some.injEq] at he; rw [← he]; exact hw
+    · simp [hw] at he
+  | dir =>
+    simp only [hk] at he
+    by_cases hw : isWhiteout e.1 = true
+    · simp only [hw, if_true, Option.some.injEq] at he; rw [← he]; exact hw
+    · simp [hw] at he
+
+/-- on a tame stack the resolver's test is the OCI cover relation, for every path -/
+theorem Tame.delSpec {S : Scanners} {layers : List FSLayer} (ht : Tame S layers) :
+    ∀ l ∈ layers, ∀ w ∈ whiteoutsOf l, fileIsDeleted "" w = false ∧ ∀ fp, fileIsDeleted fp w = covers w fp :=
+  fun l hl w hw => ⟨fileIsDeleted_nofp w,
+    fun fp => fileIsDeleted_eq_covers fp w (whiteoutsOf_isWhiteout hw) (ht.noRootOpaque l hl w hw)⟩
+
+/-- everything the scanners read from a layer depends on its entries only -/
+theorem whiteoutsOf_congr {l l' : FSLayer} (h : l.entries = l'.entries) : whiteoutsOf l = whiteoutsOf l' := by
+  unfold whiteoutsOf; rw [h]
+
+theorem filePkgs_congr (E : FileEco) {l l' : FSLayer} (h : l.entries = l'.entries) : filePkgs E l = filePkgs E l' := by
+  unfold filePkgs; rw [h]
+
+/-- the last position of a digest in the manifest carries the same entries as any layer with that digest -/
+theorem Tame.last_of_hash {S : Scanners} {layers : List FSLayer} (ht : Tame S layers) {l : FSLayer} (hl : l ∈ layers) :
+    ∃ pre l' post, layers = pre ++ l' :: post ∧ l'.hash = l.hash ∧ l'.entries = l.entries ∧
+      l.hash ∉ post.map (·.hash) := by
+  have hm : l.hash ∈ layers.map (·.hash) := List.mem_map.2 ⟨l, hl, rfl⟩
+  obtain ⟨p1, p2, hdec, hnot⟩ := exists_last_occurrence hm
+  obtain ⟨pre, l', post, h1, _, h3, h4⟩ := map_decomp hdec
+  refine ⟨pre, l', post, h1, h3, ?_, by rw [h4]; exact hnot⟩
+  exact ht.digests l' (by rw [h1]; simp) l hl h3
+
+/-! ### artifacts of a layer -/
+
+theorem filePkgsAt_mem {E : FileEco} {q c : String} {p : Pkg} (h : p ∈ filePkgsAt E q c) :
+    p.fp = q ∧ ∃ p0 ∈ E.scan q c, p.id = p0.id ∧ p.db = p0.db := by
+  unfold filePkgsAt at h
+  obtain ⟨p0, hp0, he⟩ := List.mem_map.1 h
+  subst he
+  exact ⟨rfl, p0, hp0, rfl, rfl⟩
+
+theorem mem_filePkgs {E : FileEco} {l : FSLayer} {p : Pkg} :
+    p ∈ filePkgs E l ↔ ∃ q c, (q, Entry.file c) ∈ l.entries ∧ isWhiteout q = false ∧ p ∈ filePkgsAt E q c := by
+  unfold filePkgs
+  rw [List.mem_flatMap]
+  constructor
+  · rintro ⟨⟨q, en⟩, hm, h⟩
+    cases en with
+    | dir => simp at h
+    | file c =>
+      simp only at h
+      by_cases hw : isWhiteout q = true
+      · simp [hw] at h
+      · simp only [hw, Bool.false_eq_true, if_false] at h
+        exact ⟨q, c, hm, by simpa using hw, h⟩
+  · rintro ⟨q, c, hm, hw, h⟩
+    exact ⟨(q, Entry.file c), hm, by simp [hw, h]⟩
+
+theorem mem_allFilePkgs {S : Scanners} {l : FSLayer} {p : Pkg} :
+    p ∈ allFilePkgs S l ↔ ∃ E ∈ S.fecos, p ∈ filePkgs E l := by
+  unfold allFilePkgs; rw [List.mem_flatMap]
+
+theorem entry_unique {l : FSLayer} (hnd : (l.entries.map (·.1)).Nodup) {q : String} {e1 e2 : Entry}
+    (h1 : (q, e1) ∈ l.entries) (h2 : (q, e2) ∈ l.entries) : e1 = e2 := by
+  generalize l.entries = es at *
+  induction es with
+  | nil => simp at h1
+  | cons x es ih =>
+    simp only [List.map_cons, List.nodup_cons] at hnd
+    rcases List.mem_cons.1 h1 with a1 | a1 <;> rcases List.mem_cons.1 h2 with a2 | a2
+    · rw [← a1] at a2; exact (Prod.mk.inj a2).2.symm
+    · exfalso; apply hnd.1; rw [← a1]; exact List.mem_map.2 ⟨(q, e2), a2, rfl⟩
+    · exfalso; apply hnd.1; rw [← a2]; exact List.mem_map.2 ⟨(q, e1), a1, rfl⟩
+    · exact ih hnd.2 a1 a2
+
+theorem fileOf_of_mem {l : FSLayer} (hnd : (l.entries.map (·.1)).Nodup) {q c : String}
+    (hm : (q, Entry.file c) ∈ l.entries) (hw : isWhiteout q = false) : fileOf l q = some c := by
+  unfold fileOf
+  cases hf : l.entries.find? (fun e => e.1 = q) with
+  | none =>
+    have := List.find?_eq_none.1 hf (q, Entry.file c) hm
+    simp at this
+  | some e =>
+    obtain ⟨q', en⟩ := e
+    have hq : q' = q := by simpa using List.find?_some hf
+    subst hq
+    have := entry_unique hnd (List.mem_of_find?_eq_some hf) hm
+    subst this
+    simp [hw]
+
+theorem fileArts_repos_isEmpty {E : FileEco} {l : FSLayer} :
+    (fileArts E l).repos.isEmpty = (filePkgs E l).isEmpty := by
+  unfold fileArts
+  by_cases h : (filePkgs E l).isEmpty = true <;> simp [h]
+
+/-- a layer's file artifacts hold a package with this id iff `lastPkg` finds one -/
+theorem lastPkg_fileArts_none {E : FileEco} {l : FSLayer} {id : String} :
+    ((fileArts E l).repos.isEmpty = true ∨ lastPkg id (fileArts E l).pkgs = none) ↔ ∀ p ∈ filePkgs E l, p.id ≠ id := by
+  rw [fileArts_repos_isEmpty]
+  constructor
+  · rintro (h | h)
+    · intro p hp; simp at h; rw [h] at hp; simp at hp
+    · exact lastPkg_none.1 h
+  · intro h; exact Or.inr (lastPkg_none.2 h)
+
+/-! ### the gobin coalescer on the artifacts of a Go ecosystem is the language coalescer -/
+
+theorem gobinLayerPkgs_eq_lang (a : Layer) (rid : String) (pkgs : List Pkg) (ir : Report)
+    (h : ∀ p ∈ pkgs, hasGoPrefix p.db = true) :
+    gobinLayerPkgs a rid pkgs ir = langLayerPkgs a [rid] pkgs ir := by
+  induction pkgs generalizing ir with
+  | nil => rfl
+  | cons p rest ih =>
+    simp only [gobinLayerPkgs, langLayerPkgs, h p List.mem_cons_self, if_true]
+    exact ih _ fun q hq => h q (List.mem_cons_of_mem _ hq)
+
+theorem gobinFold_eq_langFold (arts : List Layer) (ir : Report)
+    (h : ∀ a ∈ arts, (∀ p ∈ a.pkgs, hasGoPrefix p.db = true) ∧ ((a.repos = [] ∧ a.pkgs = []) ∨ a.repos = [goRepo])) :
+    gobinFold arts ir = langFold arts ir := by
+  induction arts generalizing ir with
+  | nil => rfl
+  | cons a rest ih =>
+    obtain ⟨hgo, hrep⟩ := h a List.mem_cons_self
+    have hrest := fun b hb => h b (List.mem_cons_of_mem _ hb)
+    simp only [gobinFold, langFold]
+    rcases hrep with ⟨h1, h2⟩ | h1
+    · simp only [h1, h2, List.find?_nil, List.isEmpty_nil, if_true, gobinLayerPkgs]
+      exact ih ir hrest
+    · have hfind : a.repos.find? isGoRepo = some goRepo := by rw [h1]; rfl
+      simp only [hfind]
+      rw [h1]
+      simp only [List.isEmpty_cons, Bool.false_eq_true, if_false, List.map_cons, List.map_nil]
+      rw [gobinLayerPkgs_eq_lang a goRepo.id a.pkgs _ hgo]
+      have : setRepos [goRepo] ir.repos = aset goRepo.id goRepo ir.repos := rfl
+      rw [this]
+      exact ih _ hrest
+
+/-! ### the reports of the ecosystems -/
+
+/-- the linux coalescer's report (it never fails) -/
+def linuxRep (arts : List Layer) : Report :=
+  match linuxCoalesce arts with
+  | .ok r => r
+  | .error _ => {}
+
+theorem linuxRep_ok (arts : List Layer) : linuxCoalesce arts = .ok (linuxRep arts) := by
+  obtain ⟨r, h, _⟩ := linuxCoalesce_ok (S := False) arts
+  simp [linuxRep, h]
+
+def osReps (S : Scanners) (layers : List FSLayer) : List Report :=
+  S.osDbs.map fun d => linuxRep (layers.map (osArts S false d))
+
+/-- the rhel coalescer's report (it never fails) -/
+def rhelRep (arts : List Layer) : Report :=
+  match rhelCoalesce arts with
+  | .ok r => r
+  | .error _ => {}
+
+theorem rhelRep_ok (arts : List Layer) : rhelCoalesce arts = .ok (rhelRep arts) := by
+  obtain ⟨r, h, _⟩ := rhelCoalesce_ok (S := False) arts
+  simp [rhelRep, h]
+
+def rhelReps (S : Scanners) (layers : List FSLayer) : List Report :=
+  S.rhelDbs.map fun d => rhelRep (layers.map (osArts S true d))
+
+/-- the reports of the OS package database ecosystems -/
+def dbReps (S : Scanners) (layers : List FSLayer) : List Report := osReps S layers ++ rhelReps S layers
+
+/-- the report of one file ecosystem: its own coalescer on its own artifacts -/
+def fileRep (E : FileEco) (layers : List FSLayer) : Report :=
+  if E.gobin then gobinFold (layers.map (fileArts E)) {} else langFold (layers.map (fileArts E)) {}
+
+def fileReps (S : Scanners) (layers : List FSLayer) : List Report := S.fecos.map fun E => fileRep E layers
+
+def whRep (layers : List FSLayer) : Report := { files := whFold (layers.map whArts) [] }
+
+/-- on a tame stack every file ecosystem's report is the language fold of its artifacts -/
+theorem fileRep_lang {S : Scanners} {layers : List FSLayer} (ht : Tame S layers) {E : FileEco} (hE : E ∈ S.fecos) :
+    fileRep E layers = langFold (layers.map (fileArts E)) {} := by
+  unfold fileRep
+  by_cases hg : E.gobin = true
+  · simp only [hg, if_true]
+    apply gobinFold_eq_langFold
+    intro a ha
+    obtain ⟨l, hl, hla⟩ := List.mem_map.1 ha
+    subst hla
+    refine ⟨fun p hp => ht.goDb E hE hg l hl p hp, ?_⟩
+    unfold fileArts
+    by_cases he : (filePkgs E l).isEmpty = true
+    · left; simp only [he, if_true, true_and]; simpa using he
+    · right; simp [he, FileEco.repo, hg]
+  · simp [hg]
+
+theorem coalesceAll_append (a b : List (Kind × List Layer)) :
+    coalesceAll (a ++ b) =
+      match coalesceAll a, coalesceAll b with
+      | some x, some y => some (x ++ y)
+      | _, _ => none := by
+  induction a with
+  | nil => simp [coalesceAll]; cases coalesceAll b <;> rfl
+  | cons ka rest ih =>
+    obtain ⟨k, arts⟩ := ka
+    simp only [List.cons_append, coalesceAll, ih]
+    cases coalesceKind k arts with
+    | error f => cases coalesceAll rest <;> cases coalesceAll b <;> rfl
+    | ok r => cases coalesceAll rest <;> cases coalesceAll b <;> rfl
+
+theorem coalesceAll_os (S : Scanners) (layers : List FSLayer) (ds : List String) :
+    coalesceAll (ds.map fun d => (Kind.linux, layers.map (osArts S false d))) =
+      some (ds.map fun d => linuxRep (layers.map (osArts S false d))) := by
+  induction ds with
+  | nil => rfl
+  | cons d ds ih => simp [coalesceAll, coalesceKind, linuxRep_ok, ih]
+
+theorem coalesceAll_rhel (S : Scanners) (layers : List FSLayer) (ds : List String) :
+    coalesceAll (ds.map fun d => (Kind.rhel, layers.map (osArts S true d))) =
+      some (ds.map fun d => rhelRep (layers.map (osArts S true d))) := by
+  induction ds with
+  | nil => rfl
+  | cons d ds ih => simp [coalesceAll, coalesceKind, rhelRep_ok, ih]
+
+theorem coalesceAll_files (layers : List FSLayer) (es : List FileEco) :
+    coalesceAll (es.map fun E => (E.kind, layers.map (fileArts E))) = some (es.map fun E => fileRep E layers) := by
+  induction es with
+  | nil => rfl
+  | cons E es ih =>
+    simp only [List.map_cons, coalesceAll, ih]
+    have : coalesceKind E.kind (layers.map (fileArts E)) = .ok (fileRep E layers) := by
+      unfold FileEco.kind fileRep
+      by_cases hg : E.gobin = true <;> simp [hg, coalesceKind, gobinCoalesce, langCoalesce]
+    rw [this]
+
+theorem coalesceAll_ecos (S : Scanners) (layers : List FSLayer) :
+    coalesceAll (ecosOf S layers) = some ((dbReps S layers ++ fileReps S layers) ++ [whRep layers]) := by
+  unfold ecosOf
+  rw [coalesceAll_append, coalesceAll_append, coalesceAll_append, coalesceAll_os, coalesceAll_rhel, coalesceAll_files]
+  simp [coalesceAll, coalesceKind, whCoalesce, dbReps, osReps, rhelReps, fileReps, whRep, whFold]
+
+/-- the merged report, before the resolver -/
+def merged (S : Scanners) (layers : List FSLayer) : Report :=
+  mergeSR {} ((dbReps S layers ++ fileReps S layers) ++ [whRep layers])
+
+theorem indexModel_eq (S : Scanners) (layers : List FSLayer) :
+    indexModel S layers = resolve (layers.map (·.hash)) (merged S layers) := by
+  simp [indexModel, indexCoalesce, coalesceAll_ecos, merged]
+
+theorem merged_inv (S : Scanners) (layers : List FSLayer) :
+    Inv False (BackedAny (ecosOf S layers)) (merged S layers) := by
+  obtain ⟨rs, h1, h2⟩ := coalesceAll_ok (S := False) (ecosOf S layers) (fun h => h.elim)
+  rw [coalesceAll_ecos] at h1
+  cases h1
+  exact inv_mergeSR _ {} (inv_of_nil rfl rfl) h2
+
+theorem merged_uniq (S : Scanners) (layers : List FSLayer) : Uniq (merged S layers) :=
+  uniq_mergeSR _ {} uniq_empty
+
+theorem reps_cases {S : Scanners} {layers : List FSLayer} {rr : Report}
+    (h : rr ∈ (dbReps S layers ++ fileReps S layers) ++ [whRep layers]) :
+    rr ∈ dbReps S layers ∨ (∃ E ∈ S.fecos, rr = fileRep E layers) ∨ rr = whRep layers := by
+  rcases List.mem_append.1 h with h | h
+  · rcases List.mem_append.1 h with h | h
+    · exact Or.inl h
+    · obtain ⟨E, hE, he⟩ := List.mem_map.1 h
+      exact Or.inr (Or.inl ⟨E, hE, he.symm⟩)
+  · simp only [List.mem_cons, List.mem_nil_iff, or_false] at h; exact Or.inr (Or.inr h)
+
+theorem fileRep_mem_reps {S : Scanners} {layers : List FSLayer} {E : FileEco} (hE : E ∈ S.fecos) :
+    fileRep E layers ∈ (dbReps S layers ++ fileReps S layers) ++ [whRep layers] :=
+  List.mem_append_left _ (List.mem_append_right _ (List.mem_map.2 ⟨E, hE, rfl⟩))
+
+theorem dbRep_mem_reps {S : Scanners} {layers : List FSLayer} {r : Report} (h : r ∈ dbReps S layers) :
+    r ∈ (dbReps S layers ++ fileReps S layers) ++ [whRep layers] :=
+  List.mem_append_left _ (List.mem_append_left _ h)
+
+/-! ### OS package databases: the linux coalescer against the flattened image -/
+
+theorem mem_osPkgsOf {S : Scanners} {d c : String} {p : Pkg} (h : p ∈ osPkgsOf S d c) :
+    p.db = d ∧ p.fp = "" ∧ ∃ p0 ∈ S.scanDB d c, p.id = p0.id := by
+  unfold osPkgsOf at h
+  obtain ⟨p0, hp0, he⟩ := List.mem_map.1 h
+  subst he
+  exact ⟨rfl, rfl, p0, hp0, rfl⟩
+
+theorem osArts_pkgs {S : Scanners} {rh : Bool} {d : String} {l : FSLayer} {p : Pkg} (h : p ∈ (osArts S rh d l).pkgs) :
+    ∃ c, fileOf l d = some c ∧ p ∈ osPkgsOf S d c := by
+  unfold osArts at h
+  cases hf : fileOf l d with
+  | none => simp [hf] at h
+  | some c => simp only [hf] at h; exact ⟨c, rfl, h⟩
+
+theorem mentions_osArts {S : Scanners} {rh : Bool} {d : String} {l : FSLayer} (hos : ∀ c, fileOf l d = some c → S.scanDB d c ≠ []) :
+    mentions d (osArts S rh d l) = true ↔ ∃ c, fileOf l d = some c := by
+  unfold mentions
+  rw [List.any_eq_true]
+  constructor
+  · rintro ⟨p, hp, _⟩
+    obtain ⟨c, hc, _⟩ := osArts_pkgs hp
+    exact ⟨c, hc⟩
+  · rintro ⟨c, hc⟩
+    have hne := hos c hc
+    cases hs : S.scanDB d c with
+    | nil => exact absurd hs hne
+    | cons p0 rest =>
+      refine ⟨{ p0 with db := d, fp := "" }, ?_, by simp⟩
+      simp [osArts, hc, osPkgsOf, hs]
+
+/-- the last layer carrying the database file is the one the flattened image shows -/
+theorem present_osDb {S : Scanners} {layers : List FSLayer} (ht : Tame S layers) {d : String} (hd : d ∈ S.allDbs)
+    {pre post : List FSLayer} {l : FSLayer} (hl : layers = pre ++ l :: post) {c : String} (hc : fileOf l d = some c)
+    (hpost : ∀ l' ∈ post, fileOf l' d = none) : present layers d = some c := by
+  rw [present_some_iff]
+  refine ⟨pre, l, post, hl, hc, fun l' hl' => ⟨hpost l' hl', ?_⟩⟩
+  exact (ht.osDb d hd l' (by rw [hl]; simp [hl'])).1
+
+/-- OS side, report ⇒ image -/
+theorem os_env_scan {S : Scanners} {layers : List FSLayer} (ht : Tame S layers) {d : String} (hd : d ∈ S.allDbs)
+    {id : String} {es : List Env} (hes : aget id (linuxRep (layers.map (osArts S false d))).envs = some es)
+    {e : Env} (he : e ∈ es) : ∃ p ∈ scanImage S layers, p.id = id ∧ p.db = e.db := by
+  obtain ⟨es', h1, e', h2, h3⟩ : ∃ es', aget id (linuxRep (layers.map (osArts S false d))).envs = some es' ∧ ∃ e' ∈ es', e'.db = e.db :=
+    ⟨es, hes, e, he, rfl⟩
+  -- newest-db-wins for the database e.db
+  have hnw : ∃ a, lastMention e.db (layers.map (osArts S false d)) = some a ∧ ∃ p ∈ a.pkgs, p.db = e.db ∧ p.id = id := by
+    have hok := linuxRep_ok (layers.map (osArts S false d))
+    unfold linuxCoalesce at hok
+    rcases linuxFill_from _ _ _ hok id es' h1 e' h2 with ⟨es0, h0, _⟩ | ⟨db, p, hm, hid, henv⟩
+    · simp at h0
+    · obtain ⟨a, hlm, hp, hdb⟩ := mem_linux_entries.1 hm
+      have : db = e.db := by rw [← h3]; exact (linuxEnv_db henv).1.symm
+      subst this
+      exact ⟨a, hlm, p, hp, hdb, hid⟩
+  obtain ⟨a, hlm, p, hp, hpdb, hpid⟩ := hnw
+  obtain ⟨apre, apost, hdec, _, hnone⟩ := lastMention_newest _ _ _ hlm
+  obtain ⟨lpre, l, lpost, hl, _, hfa, hfpost⟩ := map_decomp hdec
+  subst hfa
+  obtain ⟨c, hc, hpc⟩ := osArts_pkgs hp
+  have hdb : e.db = d := by rw [← hpdb]; exact (mem_osPkgsOf hpc).1
+  have hpost : ∀ l' ∈ lpost, fileOf l' d = none := by
+    intro l' hl'
+    have hm : mentions e.db (osArts S false d l') = false := hnone _ (by rw [← hfpost]; exact List.mem_map.2 ⟨l', hl', rfl⟩)
+    cases hf : fileOf l' d with
+    | none => rfl
+    | some c' =>
+      have hl'mem : l' ∈ layers := by rw [hl]; simp [hl']
+      have := (mentions_osArts (S := S) (rh := false) (d := d) (l := l') (fun c hc => (ht.osDb d hd l' hl'mem).2 c hc)).2 ⟨c', hf⟩
+      rw [hdb] at hm; rw [hm] at this; simp at this
+  have hpres := present_osDb ht hd hl hc hpost
+  refine ⟨p, ?_, hpid, hpdb⟩
+  unfold scanImage
+  apply List.mem_append_left
+  rw [List.mem_flatMap]
+  exact ⟨d, hd, by simp [hpres, hpc]⟩
+
+/-- OS side, image ⇒ report -/
+theorem os_scan_env {S : Scanners} {layers : List FSLayer} (ht : Tame S layers) {d : String} (hd : d ∈ S.allDbs)
+    {c : String} (hpres : present layers d = some c) {p : Pkg} (hp : p ∈ osPkgsOf S d c) :
+    ∃ es, aget p.id (linuxRep (layers.map (osArts S false d))).envs = some es ∧ ∃ e ∈ es, e.db = d := by
+  obtain ⟨pre, l, post, hl, hc, hpost⟩ := (present_some_iff layers d c).1 hpres
+  have hlmem : l ∈ layers := by rw [hl]; simp
+  have hment : mentions d (osArts S false d l) = true :=
+    (mentions_osArts (fun c hc => (ht.osDb d hd l hlmem).2 c hc)).2 ⟨c, hc⟩
+  have hlm : lastMention d (layers.map (osArts S false d)) = some (osArts S false d l) := by
+    rw [hl, List.map_append, List.map_cons]
+    apply lastMention_of_decomp hment
+    intro b hb
+    obtain ⟨l', hl', hbe⟩ := List.mem_map.1 hb
+    subst hbe
+    cases hm : mentions d (osArts S false d l') with
+    | false => rfl
+    | true =>
+      have hl'mem : l' ∈ layers := by rw [hl]; simp [hl']
+      obtain ⟨c', hc'⟩ := (mentions_osArts (fun c hc => (ht.osDb d hd l' hl'mem).2 c hc)).1 hm
+      rw [(hpost l' hl').1] at hc'; simp at hc'
+  have hpa : p ∈ (osArts S false d l).pkgs := by simp [osArts, hc, hp]
+  have hm : (d, p) ∈ dbEntries (linuxDbs (layers.map (osArts S false d))) :=
+    mem_linux_entries.2 ⟨_, hlm, hpa, (mem_osPkgsOf hp).1⟩
+  have hok := linuxRep_ok (layers.map (osArts S false d))
+  unfold linuxCoalesce at hok
+  exact linuxFill_has _ _ _ hok d p hm
+
+/-! ### OS package databases under the rhel coalescer -/
+
+theorem rhel_layer_decomp {S : Scanners} {layers : List FSLayer} (ht : Tame S layers) {d : String} (hd : d ∈ S.allDbs)
+    {apre apost : List Layer} {a : Layer} (hdec : layers.map (osArts S true d) = apre ++ a :: apost)
+    (ha : a.pkgs ≠ []) (hpost : ∀ b ∈ apost, b.pkgs = []) :
+    ∃ c, present layers d = some c ∧ a.pkgs = osPkgsOf S d c := by
+  obtain ⟨lpre, l, lpost, hl, _, hfa, hfpost⟩ := map_decomp hdec
+  subst hfa
+  cases hc : fileOf l d with
+  | none => simp [osArts, hc] at ha
+  | some c =>
+    refine ⟨c, ?_, by simp [osArts, hc]⟩
+    apply present_osDb ht hd hl hc
+    intro l' hl'
+    have hempty : (osArts S true d l').pkgs = [] := hpost _ (by rw [← hfpost]; exact List.mem_map.2 ⟨l', hl', rfl⟩)
+    cases hf : fileOf l' d with
+    | none => rfl
+    | some c' =>
+      exfalso
+      have hl'mem : l' ∈ layers := by rw [hl]; simp [hl']
+      have hne := (ht.osDb d hd l' hl'mem).2 c' hf
+      simp only [osArts, hf, osPkgsOf, List.map_eq_nil_iff] at hempty
+      exact hne hempty
+
+/-- rhel side, report ⇒ image -/
+theorem rhel_env_scan {S : Scanners} {layers : List FSLayer} (ht : Tame S layers) {d : String} (hd : d ∈ S.allDbs)
+    {id : String} {es : List Env} (hes : aget id (rhelRep (layers.map (osArts S true d))).envs = some es)
+    {e : Env} (he : e ∈ es) : ∃ p ∈ scanImage S layers, p.id = id ∧ p.db = e.db := by
+  obtain ⟨r', h1, hinv, _⟩ := rhelCoalesce_ok (S := False) (layers.map (osArts S true d))
+  rw [rhelRep_ok] at h1; cases h1
+  obtain ⟨hpk, hall⟩ := hinv.envOk id es (mem_of_aget hes)
+  -- the environment's database is d
+  obtain ⟨⟨a', ha', _, q', hq', hq'db, _⟩, _⟩ := hall e he
+  obtain ⟨l', _, hla'⟩ := List.mem_map.1 ha'
+  subst hla'
+  obtain ⟨c', _, hq'c⟩ := osArts_pkgs hq'
+  have hedb : e.db = d := by rw [← hq'db]; exact (mem_osPkgsOf hq'c).1
+  -- the id is in the last package-bearing layer
+  obtain ⟨q, hq, hqid⟩ := (rhelCoalesce_ids _ _ (rhelRep_ok _) id).1 hpk
+  have hne : lastPkgs (layers.map (osArts S true d)) ≠ [] := by intro h0; rw [h0] at hq; simp at hq
+  obtain ⟨apre, a, apost, hdec, hlast, hpost⟩ := lastPkgs_spec hne
+  obtain ⟨c, hpres, hapk⟩ := rhel_layer_decomp ht hd hdec (by rw [← hlast]; exact hne) hpost
+  rw [hlast, hapk] at hq
+  refine ⟨q, ?_, hqid, by rw [hedb]; exact (mem_osPkgsOf hq).1⟩
+  unfold scanImage
+  apply List.mem_append_left
+  rw [List.mem_flatMap]
+  exact ⟨d, hd, by simp [hpres, hq]⟩
+
+/-- rhel side, image ⇒ report -/
+theorem rhel_scan_env {S : Scanners} {layers : List FSLayer} (_ht : Tame S layers) {d : String} (_hd : d ∈ S.allDbs)
+    {c : String} (hpres : present layers d = some c) {p : Pkg} (hp : p ∈ osPkgsOf S d c) :
+    ∃ es, aget p.id (rhelRep (layers.map (osArts S true d))).envs = some es ∧ ∃ e ∈ es, e.db = d := by
+  obtain ⟨pre, l, post, hl, hc, hpost⟩ := (present_some_iff layers d c).1 hpres
+  have hdec : layers.map (osArts S true d) = pre.map (osArts S true d) ++ osArts S true d l :: post.map (osArts S true d) := by
+    rw [hl]; simp
+  have hapk : (osArts S true d l).pkgs = osPkgsOf S d c := by simp [osArts, hc]
+  have hne : (osArts S true d l).pkgs ≠ [] := by rw [hapk]; intro h0; rw [h0] at hp; simp at hp
+  have hlater : ∀ b ∈ post.map (osArts S true d), b.pkgs = [] := by
+    intro b hb
+    obtain ⟨l', hl', hbe⟩ := List.mem_map.1 hb
+    subst hbe
+    simp [osArts, (hpost l' hl').1]
+  have hlast := lastPkgs_decomp hdec hne hlater
+  obtain ⟨r', h1, hinv, _⟩ := rhelCoalesce_ok (S := False) (layers.map (osArts S true d))
+  rw [rhelRep_ok] at h1; cases h1
+  have hpk := (rhelCoalesce_ids _ _ (rhelRep_ok (layers.map (osArts S true d))) p.id).2 ⟨p, by rw [hlast, hapk]; exact hp, rfl⟩
+  cases hg : aget p.id (rhelRep (layers.map (osArts S true d))).pkgs with
+  | none => rw [hg] at hpk; simp at hpk
+  | some p' =>
+    obtain ⟨_, es, hes, hnee⟩ := hinv.pkgEnv p.id p' (mem_of_aget hg)
+    cases es with
+    | nil => exact absurd rfl hnee
+    | cons e es' =>
+      refine ⟨e :: es', hes, e, List.mem_cons_self, ?_⟩
+      obtain ⟨⟨a', ha', _, q', hq', hq'db, _⟩, _⟩ := (hinv.envOk p.id (e :: es') (mem_of_aget hes)).2 e List.mem_cons_self
+      obtain ⟨l', _, hla'⟩ := List.mem_map.1 ha'
+      subst hla'
+      obtain ⟨c', _, hq'c⟩ := osArts_pkgs hq'
+      rw [← hq'db]; exact (mem_osPkgsOf hq'c).1
+
+/-- OS side for either coalescer, report ⇒ image -/
+theorem db_env_scan {S : Scanners} {layers : List FSLayer} (ht : Tame S layers) {r : Report} (hr : r ∈ dbReps S layers)
+    {id : String} {es : List Env} (hm : (id, es) ∈ r.envs) {e : Env} (he : e ∈ es) :
+    ∃ p ∈ scanImage S layers, p.id = id ∧ p.db = e.db := by
+  rcases List.mem_append.1 hr with hr | hr
+  · obtain ⟨d, hd, hre⟩ := List.mem_map.1 hr
+    subst hre
+    have hu := (linuxCoalesce_pkgs (linuxRep_ok (layers.map (osArts S false d)))).2.1
+    exact os_env_scan ht (List.mem_append_left _ hd) (aget_of_mem_uniq hu hm) he
+  · obtain ⟨d, hd, hre⟩ := List.mem_map.1 hr
+    subst hre
+    have hu := (rhelCoalesce_pkgs (rhelRep_ok (layers.map (osArts S true d)))).2.1
+    exact rhel_env_scan ht (List.mem_append_right _ hd) (aget_of_mem_uniq hu hm) he
+
+/-- OS side for either coalescer, image ⇒ report -/
+theorem db_scan_env {S : Scanners} {layers : List FSLayer} (ht : Tame S layers) {d : String} (hd : d ∈ S.allDbs)
+    {c : String} (hpres : present layers d = some c) {p : Pkg} (hp : p ∈ osPkgsOf S d c) :
+    ∃ r ∈ dbReps S layers, ∃ es, aget p.id r.envs = some es ∧ ∃ e ∈ es, e.db = d := by
+  rcases List.mem_append.1 hd with h | h
+  · exact ⟨_, List.mem_append_left _ (List.mem_map.2 ⟨d, h, rfl⟩), os_scan_env ht hd hpres hp⟩
+  · exact ⟨_, List.mem_append_right _ (List.mem_map.2 ⟨d, h, rfl⟩), rhel_scan_env ht hd hpres hp⟩
+
+/-! ### the `Files` map of the merged report -/
+
+theorem keysUniq_whFold (arts : List Layer) (m : List (String × File)) (h : KeysUniq m) : KeysUniq (whFold arts m) := by
+  unfold whFold
+  induction arts generalizing m with
+  | nil => exact h
+  | cons a rest ih =>
+    simp only [List.foldl_cons]
+    apply ih
+    generalize a.files = fs
+    induction fs generalizing m with
+    | nil => exact h
+    | cons f fs ihf => exact ihf _ (keysUniq_aset _ _ h)
+
+theorem dbReps_files {S : Scanners} {layers : List FSLayer} {r : Report} (h : r ∈ dbReps S layers) : r.files = [] := by
+  rcases List.mem_append.1 h with h | h
+  · obtain ⟨d, _, hr⟩ := List.mem_map.1 h
+    obtain ⟨r', h1, _, _, h4⟩ := linuxCoalesce_ok (S := False) (layers.map (osArts S false d))
+    rw [linuxRep_ok] at h1; cases h1
+    rw [← hr]; exact h4
+  · obtain ⟨d, _, hr⟩ := List.mem_map.1 h
+    obtain ⟨r', h1, _, h4⟩ := rhelCoalesce_ok (S := False) (layers.map (osArts S true d))
+    rw [rhelRep_ok] at h1; cases h1
+    rw [← hr]; exact h4
+
+theorem fileRep_files (E : FileEco) (layers : List FSLayer) : (fileRep E layers).files = [] := by
+  unfold fileRep
+  by_cases hg : E.gobin = true
+  · simp only [hg, if_true]
+    exact (gobinFold_inv (S := False) _ _ {} (fun _ h => h) (fun h => h.elim) (inv_of_nil rfl rfl)).2.2
+  · simp only [hg, Bool.false_eq_true, if_false]
+    exact (langFold_inv (S := False) _ _ {} (fun _ h => h) (inv_of_nil rfl rfl)).2.2
+
+/-- every entry of the merged `Files` map is a whiteout of the layer it is stored under -/
+theorem merged_files_from {S : Scanners} {layers : List FSLayer} {k : String} {f : File}
+    (h : (k, f) ∈ (merged S layers).files) :
+    ∃ l ∈ layers, l.hash = k ∧ f.path ∈ whiteoutsOf l ∧ f.kind = whiteoutKind := by
+  rcases mergeSR_files_from _ _ k f h with h1 | ⟨r, hr, h1⟩
+  · simp at h1
+  · rcases reps_cases hr with h2 | ⟨E, _, h2⟩ | h2
+    · rw [dbReps_files h2] at h1; simp at h1
+    · rw [h2, fileRep_files] at h1; simp at h1
+    · rw [h2] at h1
+      simp only [whRep] at h1
+      rcases whFold_mem h1 with h3 | ⟨a, ha, h3, h4⟩
+      · simp at h3
+      · obtain ⟨l, hl, hla⟩ := List.mem_map.1 ha
+        subst hla
+        simp only [whArts, List.mem_map] at h4
+        obtain ⟨w, hw, hwf⟩ := h4
+        exact ⟨l, hl, h3, by rw [← hwf]; exact hw, by rw [← hwf]⟩
+
+/-- with one whiteout per layer, every whiteout is in the merged `Files` map (under the digest of
+    its layer — which every layer with that digest shares) -/
+theorem merged_files_has {S : Scanners} {layers : List FSLayer} (ht : Tame S layers) {l : FSLayer} (hl : l ∈ layers)
+    {w : String} (hw : whiteoutsOf l = [w]) :
+    (l.hash, { path := w, kind := whiteoutKind }) ∈ (merged S layers).files := by
+  obtain ⟨pre, l', post, hdec, hh, hent, hnot⟩ := ht.last_of_hash hl
+  have hw' : whiteoutsOf l' = [w] := by rw [whiteoutsOf_congr hent]; exact hw
+  have hpost : ∀ b ∈ post.map whArts, b.hash ≠ (whArts l').hash := by
+    intro b hb
+    obtain ⟨l2, hl2, hbe⟩ := List.mem_map.1 hb
+    subst hbe
+    intro heq
+    apply hnot
+    simp only [whArts] at heq
+    rw [← hh, ← heq]; exact List.mem_map.2 ⟨l2, hl2, rfl⟩
+  have hmem : ((whArts l').hash, ({ path := w, kind := whiteoutKind } : File)) ∈ (whRep layers).files := by
+    simp only [whRep]
+    rw [hdec, List.map_append, List.map_cons]
+    exact whFold_single [] (by simp [whArts, hw']) hpost
+  have hk : (whArts l').hash = l.hash := hh
+  rw [hk] at hmem
+  exact mergeSR_files_last _ _ _ _ _ (keysUniq_whFold _ _ (by simp [KeysUniq])) hmem
+
+/-! ### deletion by the resolver = hidden by a later layer -/
+
+theorem pkgLayer_const (hs : List String) (es : List Env) (h : String) (hall : ∀ e ∈ es, e.intro = h) :
+    pkgLayer hs es h = h := by
+  induction es with
+  | nil => rfl
+  | cons e es ih =>
+    simp only [pkgLayer]
+    have he := hall e List.mem_cons_self
+    by_cases hc : sorterIdx hs e.intro > sorterIdx hs h
+    · simp only [hc, if_true]; rw [he]; exact ih fun x hx => hall x (List.mem_cons_of_mem _ hx)
+    · simp only [hc, if_false]; exact ih fun x hx => hall x (List.mem_cons_of_mem _ hx)
+
+theorem pkgDeleted_nofp {S : Scanners} {layers : List FSLayer} (ht : Tame S layers) (p : Pkg) (hfp : p.fp = "") (pl : String) :
+    pkgDeleted (layers.map (·.hash)) (merged S layers).files p pl = false := by
+  unfold pkgDeleted
+  rw [List.any_eq_false]
+  intro kf hkf
+  obtain ⟨k, f⟩ := kf
+  obtain ⟨l, hl, _, hw, _⟩ := merged_files_from hkf
+  have := (ht.delSpec l hl f.path hw).1
+  simp [hfp, this]
+
+/-- a position after `pre.length` of `pre ++ l :: post` lies in `post` -/
+theorem mem_post_of_longer {α : Type} {pre post q1 q2 : List α} {l l2 : α}
+    (h : pre ++ l :: post = q1 ++ l2 :: q2) (hlen : q1.length > pre.length) : l2 ∈ post := by
+  induction pre generalizing q1 with
+  | nil =>
+    cases q1 with
+    | nil => simp at hlen
+    | cons x q1' => simp at h; rw [h.2]; simp
+  | cons y pre ih =>
+    cases q1 with
+    | nil => simp at hlen
+    | cons x q1' =>
+      simp at h
+      exact ih h.2 (by simpa using hlen)
+
+/-- for a package whose newest environment is layer `l` (the last position of its digest): the
+    resolver deletes it exactly when a later layer hides its file -/
+theorem pkgDeleted_iff_hidden {S : Scanners} {layers : List FSLayer} (ht : Tame S layers)
+    {pre post : List FSLayer} {l : FSLayer} (hdec : layers = pre ++ l :: post)
+    (hlast : l.hash ∉ post.map (·.hash))
+    {l0 : FSLayer} (hl0 : l0 ∈ layers) {p : Pkg} (hp : p ∈ allFilePkgs S l0) :
+    pkgDeleted (layers.map (·.hash)) (merged S layers).files p l.hash = true ↔ ∃ l' ∈ post, hides l' p.fp = true := by
+  have hmap : layers.map (·.hash) = pre.map (·.hash) ++ l.hash :: post.map (·.hash) := by rw [hdec]; simp
+  have hidx : sorterIdx (layers.map (·.hash)) l.hash = pre.length := by
+    rw [hmap, sorterIdx_split _ _ _ hlast]; simp
+  unfold pkgDeleted
+  rw [List.any_eq_true]
+  constructor
+  · rintro ⟨⟨k, f⟩, hkf, hcond⟩
+    simp only [Bool.and_eq_true, decide_eq_true_eq] at hcond
+    obtain ⟨⟨_, hlater⟩, hdel⟩ := hcond
+    obtain ⟨l1, hl1, hk, hw, _⟩ := merged_files_from hkf
+    have hcov : covers f.path p.fp = true := by rw [← (ht.delSpec l1 hl1 f.path hw).2 p.fp]; exact hdel
+    -- the last layer with digest k: it has the same whiteout, and lies after l
+    obtain ⟨q1, l2, q2, hdec2, hh2, hent2, hnot2⟩ := ht.last_of_hash hl1
+    have hidx2 : sorterIdx (layers.map (·.hash)) k = q1.length := by
+      have : layers.map (·.hash) = q1.map (·.hash) ++ k :: q2.map (·.hash) := by rw [hdec2]; simp [hh2, hk]
+      rw [this, sorterIdx_split _ _ _ (by rw [← hk]; exact hnot2)]; simp
+    rw [hidx, hidx2] at hlater
+    have hpost : l2 ∈ post := mem_post_of_longer (hdec.symm.trans hdec2) hlater
+    have hl2mem : l2 ∈ layers := by rw [hdec2]; simp
+    refine ⟨l2, hpost, ?_⟩
+    rw [ht.hidesSpec l2 hl2mem l0 hl0 p hp, List.any_eq_true]
+    refine ⟨f.path, ?_, hcov⟩
+    rw [← (ht.oneWhiteout l2 hl2mem).2, whiteoutsOf_congr hent2]; exact hw
+  · rintro ⟨l', hl', hh⟩
+    have hl'mem : l' ∈ layers := by rw [hdec]; simp [hl']
+    rw [ht.hidesSpec l' hl'mem l0 hl0 p hp, List.any_eq_true] at hh
+    obtain ⟨w, hw, hcov⟩ := hh
+    rw [← (ht.oneWhiteout l' hl'mem).2] at hw
+    have hone : whiteoutsOf l' = [w] := by
+      have hlen := (ht.oneWhiteout l' hl'mem).1
+      cases hws : whiteoutsOf l' with
+      | nil => rw [hws] at hw; simp at hw
+      | cons x xs =>
+        rw [hws] at hw hlen
+        cases xs with
+        | nil => simp at hw; rw [hw]
+        | cons y ys => simp at hlen
+    refine ⟨(l'.hash, { path := w, kind := whiteoutKind }), merged_files_has ht hl'mem hone, ?_⟩
+    simp only [Bool.and_eq_true, decide_eq_true_eq]
+    refine ⟨⟨by simp, ?_⟩, ?_⟩
+    · rw [hmap]
+      exact later_of_mem_post hlast (List.mem_map.2 ⟨l', hl', rfl⟩)
+    · rw [(ht.delSpec l' hl'mem w (by rw [hone]; simp)).2 p.fp]; exact hcov
+
+/-! ### which report an id comes from -/
+
+theorem os_pkg_origin {S : Scanners} {layers : List FSLayer} {r : Report} (hr : r ∈ dbReps S layers)
+    {id : String} {p : Pkg} (hm : (id, p) ∈ r.pkgs) :
+    p.fp = "" ∧ ∃ d ∈ S.allDbs, ∃ l ∈ layers, ∃ c, fileOf l d = some c ∧ ∃ p0 ∈ S.scanDB d c, p0.id = id := by
+  have key : ∀ rh d, p.id = id → p ∈ allPkgs (layers.map (osArts S rh d)) → d ∈ S.allDbs →
+      p.fp = "" ∧ ∃ d ∈ S.allDbs, ∃ l ∈ layers, ∃ c, fileOf l d = some c ∧ ∃ p0 ∈ S.scanDB d c, p0.id = id := by
+    intro rh d hid hall hd
+    obtain ⟨a, ha, hpa⟩ := List.mem_flatMap.1 hall
+    obtain ⟨l, hl, hla⟩ := List.mem_map.1 ha
+    subst hla
+    obtain ⟨c, hc, hpc⟩ := osArts_pkgs hpa
+    obtain ⟨_, hfp, p0, hp0, hid0⟩ := mem_osPkgsOf hpc
+    exact ⟨hfp, d, hd, l, hl, c, hc, p0, hp0, by rw [← hid0, hid]⟩
+  rcases List.mem_append.1 hr with hr | hr
+  · obtain ⟨d, hd, hre⟩ := List.mem_map.1 hr
+    subst hre
+    obtain ⟨r', h1, hinv, _, _⟩ := linuxCoalesce_ok (S := False) (layers.map (osArts S false d))
+    rw [linuxRep_ok] at h1; cases h1
+    exact key false d (hinv.pkgEnv id p hm).1
+      ((linuxCoalesce_pkgs (linuxRep_ok (layers.map (osArts S false d)))).2.2 id p hm) (List.mem_append_left _ hd)
+  · obtain ⟨d, hd, hre⟩ := List.mem_map.1 hr
+    subst hre
+    obtain ⟨r', h1, hinv, _⟩ := rhelCoalesce_ok (S := False) (layers.map (osArts S true d))
+    rw [rhelRep_ok] at h1; cases h1
+    exact key true d (hinv.pkgEnv id p hm).1
+      ((rhelCoalesce_pkgs (rhelRep_ok (layers.map (osArts S true d)))).2.2 id p hm) (List.mem_append_right _ hd)
+
+theorem os_env_has_pkg {S : Scanners} {layers : List FSLayer} {r : Report} (hr : r ∈ dbReps S layers)
+    {id : String} {es : List Env} (hm : (id, es) ∈ r.envs) : ∃ p, (id, p) ∈ r.pkgs := by
+  have key : ∀ {B : String → Env → Prop}, Inv False B r → ∃ p, (id, p) ∈ r.pkgs := by
+    intro B hinv
+    have := (hinv.envOk id es hm).1
+    cases hg : aget id r.pkgs with
+    | none => simp [hg] at this
+    | some p => exact ⟨p, mem_of_aget hg⟩
+  rcases List.mem_append.1 hr with hr | hr
+  · obtain ⟨d, _, hre⟩ := List.mem_map.1 hr
+    subst hre
+    obtain ⟨r', h1, hinv, _, _⟩ := linuxCoalesce_ok (S := False) (layers.map (osArts S false d))
+    rw [linuxRep_ok] at h1; cases h1
+    exact key hinv
+  · obtain ⟨d, _, hre⟩ := List.mem_map.1 hr
+    subst hre
+    obtain ⟨r', h1, hinv, _⟩ := rhelCoalesce_ok (S := False) (layers.map (osArts S true d))
+    rw [rhelRep_ok] at h1; cases h1
+    exact key hinv
+
+/-- a file package id never occurs in an OS report -/
+theorem file_id_not_os {S : Scanners} {layers : List FSLayer} (ht : Tame S layers)
+    {l0 : FSLayer} (hl0 : l0 ∈ layers) {p0 : Pkg} (hp0 : p0 ∈ allFilePkgs S l0)
+    {r : Report} (hr : r ∈ dbReps S layers) {p : Pkg} (hm : (p0.id, p) ∈ r.pkgs) : False := by
+  obtain ⟨_, d, hd, l, hl, c, hc, q, hq, hqid⟩ := os_pkg_origin hr hm
+  exact ht.disjoint d hd l hl c hc q hq l0 hl0 p0 hp0 hqid
+
+theorem lastLang_layers {E : FileEco} {layers : List FSLayer} {id : String} {a : Layer} {pL : Pkg}
+    (h : lastLang id (layers.map (fileArts E)) = some (a, pL)) :
+    ∃ lpre l lpost, layers = lpre ++ l :: lpost ∧ a = fileArts E l ∧ pL ∈ filePkgs E l ∧ pL.id = id ∧
+      ∀ l' ∈ lpost, ∀ p ∈ filePkgs E l', p.id ≠ id := by
+  obtain ⟨apre, apost, h1, _, h3, h4⟩ := lastLang_some h
+  obtain ⟨lpre, l, lpost, hl, _, hfa, hfpost⟩ := map_decomp h1
+  refine ⟨lpre, l, lpost, hl, hfa.symm, ?_, ?_, ?_⟩
+  · have := (lastPkg_some h3).1; rw [← hfa] at this; exact this
+  · exact (lastPkg_some h3).2
+  · intro l' hl'
+    have := lastLang_none.1 h4 (fileArts E l') (by rw [← hfpost]; exact List.mem_map.2 ⟨l', hl', rfl⟩)
+    exact lastPkg_fileArts_none.1 this
+
+theorem lastLang_exists {E : FileEco} {layers : List FSLayer} {l : FSLayer} (hl : l ∈ layers) {p : Pkg}
+    (hp : p ∈ filePkgs E l) : ∃ a pL, lastLang p.id (layers.map (fileArts E)) = some (a, pL) := by
+  cases h : lastLang p.id (layers.map (fileArts E)) with
+  | some x => exact ⟨x.1, x.2, rfl⟩
+  | none =>
+    have := lastLang_none.1 h (fileArts E l) (List.mem_map.2 ⟨l, hl, rfl⟩)
+    exact absurd rfl (lastPkg_fileArts_none.1 this p hp)
+
+theorem fileRep_get {S : Scanners} {layers : List FSLayer} (ht : Tame S layers) {E : FileEco} (hE : E ∈ S.fecos)
+    (id : String) :
+    aget id (fileRep E layers).envs =
+      (match lastLang id (layers.map (fileArts E)) with
+       | some (a, p) => some [langEnv a p]
+       | none => none) ∧
+    aget id (fileRep E layers).pkgs =
+      (match lastLang id (layers.map (fileArts E)) with
+       | some (_, p) => some p
+       | none => none) := by
+  obtain ⟨h1, h2⟩ := langFold_get (layers.map (fileArts E)) {} id
+  rw [fileRep_lang ht hE, h1, h2]
+  cases lastLang id (layers.map (fileArts E)) <;> simp
+
+theorem fileRep_uniq {S : Scanners} {layers : List FSLayer} (ht : Tame S layers) {E : FileEco} (hE : E ∈ S.fecos) :
+    KeysUniq (fileRep E layers).envs ∧ KeysUniq (fileRep E layers).pkgs := by
+  rw [fileRep_lang ht hE]
+  exact keysUniq_langFold _ {} (by simp [KeysUniq]) (by simp [KeysUniq])
+
+theorem whRep_empty (layers : List FSLayer) : (whRep layers).envs = [] ∧ (whRep layers).pkgs = [] := ⟨rfl, rfl⟩
+
+/-- an id in a file ecosystem's report is the id of a package its scanner found in some layer -/
+theorem fileRep_id_origin {S : Scanners} {layers : List FSLayer} (ht : Tame S layers) {E : FileEco} (hE : E ∈ S.fecos)
+    {id : String} (h : (aget id (fileRep E layers).envs).isSome ∨ (aget id (fileRep E layers).pkgs).isSome) :
+    ∃ l ∈ layers, ∃ p ∈ filePkgs E l, p.id = id := by
+  obtain ⟨g1, g2⟩ := fileRep_get ht hE id
+  cases hlast : lastLang id (layers.map (fileArts E)) with
+  | none => rw [hlast] at g1 g2; simp only at g1 g2; rw [g1, g2] at h; simp at h
+  | some apl =>
+    obtain ⟨a, pL⟩ := apl
+    obtain ⟨lpre, l, lpost, hl, _, hpL, hpid, _⟩ := lastLang_layers hlast
+    exact ⟨l, by rw [hl]; simp, pL, hpL, hpid⟩
+
+theorem pairwise_mem {α : Type} {R : α → α → Prop} {l : List α} (h : l.Pairwise R) {a b : α} (ha : a ∈ l) (hb : b ∈ l) :
+    a = b ∨ R a b ∨ R b a := by
+  induction l with
+  | nil => simp at ha
+  | cons x xs ih =>
+    obtain ⟨h1, h2⟩ := List.pairwise_cons.1 h
+    rcases List.mem_cons.1 ha with ha1 | ha2 <;> rcases List.mem_cons.1 hb with hb1 | hb2
+    · exact Or.inl (ha1.trans hb1.symm)
+    · rw [ha1]; exact Or.inr (Or.inl (h1 b hb2))
+    · rw [hb1]; exact Or.inr (Or.inr (h1 a ha2))
+    · exact ih h2 ha2 hb2
+
+/-- two file ecosystems that both know an id are the same ecosystem -/
+theorem eco_of_id {S : Scanners} {layers : List FSLayer} (ht : Tame S layers) {E E' : FileEco}
+    (hE : E ∈ S.fecos) (hE' : E' ∈ S.fecos) {id : String}
+    {l : FSLayer} (hl : l ∈ layers) {p : Pkg} (hp : p ∈ filePkgs E l) (hpid : p.id = id)
+    {l' : FSLayer} (hl' : l' ∈ layers) {p' : Pkg} (hp' : p' ∈ filePkgs E' l') (hpid' : p'.id = id) : E = E' := by
+  rcases pairwise_mem ht.ecosApart hE hE' with h | h | h
+  · exact h
+  · exact absurd (hpid.trans hpid'.symm) (h l hl p hp l' hl' p' hp')
+  · exact absurd (hpid'.trans hpid.symm) (h l' hl' p' hp' l hl p hp)
+
+/-- the merged report's view of a file package id: one kind of environment, the last layer's package -/
+theorem merged_file_id {S : Scanners} {layers : List FSLayer} (ht : Tame S layers) {E : FileEco} (hE : E ∈ S.fecos)
+    {id : String} {a : Layer} {pL : Pkg}
+    (hlast : lastLang id (layers.map (fileArts E)) = some (a, pL)) :
+    (∃ ws, aget id (merged S layers).envs = some ws ∧ langEnv a pL ∈ ws ∧ ∀ e ∈ ws, e = langEnv a pL) ∧
+    aget id (merged S layers).pkgs = some pL := by
+  obtain ⟨lpre, l, lpost, hl, _, hpL, hpid, _⟩ := lastLang_layers hlast
+  have hlmem : l ∈ layers := by rw [hl]; simp
+  have hpLall : pL ∈ allFilePkgs S l := mem_allFilePkgs.2 ⟨E, hE, hpL⟩
+  obtain ⟨g1, g2⟩ := fileRep_get ht hE id
+  rw [hlast] at g1 g2
+  simp only at g1 g2
+  have hin := fileRep_mem_reps (layers := layers) hE
+  constructor
+  · have hex := (mergeSR_envs ((dbReps S layers ++ fileReps S layers) ++ [whRep layers]) {} (by simp [KeysUniq]) id (langEnv a pL)).2
+      (Or.inr ⟨fileRep E layers, hin, [langEnv a pL], mem_of_aget g1, by simp⟩)
+    obtain ⟨ws, hws, hmem⟩ := hex
+    refine ⟨ws, hws, hmem, ?_⟩
+    intro e he
+    rcases (mergeSR_envs ((dbReps S layers ++ fileReps S layers) ++ [whRep layers]) {} (by simp [KeysUniq]) id e).1 ⟨ws, hws, he⟩ with
+      ⟨es, h0, _⟩ | ⟨r, hr, es, h1, h2⟩
+    · simp at h0
+    · rcases reps_cases hr with h3 | ⟨E', hE', h3⟩ | h3
+      · exfalso
+        obtain ⟨p, hp⟩ := os_env_has_pkg h3 h1
+        rw [← hpid] at hp
+        exact file_id_not_os ht hlmem hpLall h3 hp
+      · subst h3
+        have hsome : (aget id (fileRep E' layers).envs).isSome := aget_isSome_of_mem h1
+        obtain ⟨l', hl', p', hp', hpid'⟩ := fileRep_id_origin ht hE' (Or.inl hsome)
+        have : E = E' := eco_of_id ht hE hE' hlmem hpL hpid hl' hp' hpid'
+        subst this
+        have := aget_of_mem_uniq (fileRep_uniq ht hE).1 h1
+        rw [g1] at this
+        cases this
+        simpa using h2
+      · subst h3; simp [whRep] at h1
+  · have hsome := mergeSR_pkgs_has ((dbReps S layers ++ fileReps S layers) ++ [whRep layers]) {} id
+      (Or.inr ⟨fileRep E layers, hin, pL, mem_of_aget g2⟩)
+    cases hg : aget id (merged S layers).pkgs with
+    | none => rw [merged] at hg; rw [hg] at hsome; simp at hsome
+    | some p =>
+      rcases mergeSR_pkgs_from _ _ id p (mem_of_aget hg) with h0 | ⟨r, hr, h1⟩
+      · simp at h0
+      · rcases reps_cases hr with h3 | ⟨E', hE', h3⟩ | h3
+        · exfalso
+          rw [← hpid] at h1
+          exact file_id_not_os ht hlmem hpLall h3 h1
+        · subst h3
+          have hsome : (aget id (fileRep E' layers).pkgs).isSome := aget_isSome_of_mem h1
+          obtain ⟨l', hl', p', hp', hpid'⟩ := fileRep_id_origin ht hE' (Or.inr hsome)
+          have : E = E' := eco_of_id ht hE hE' hlmem hpL hpid hl' hp' hpid'
+          subst this
+          have := aget_of_mem_uniq (fileRep_uniq ht hE).2 h1
+          rw [g2] at this
+          exact congrArg some (Option.some.inj this).symm
+        · subst h3; simp [whRep] at h1
+
+/-- the layer `lastLang` names is the last position of its digest -/
+theorem lastLang_hash_last {S : Scanners} {layers : List FSLayer} (ht : Tame S layers) {E : FileEco}
+    {lpre lpost : List FSLayer} {l : FSLayer} (hl : layers = lpre ++ l :: lpost) {pL : Pkg} (hpL : pL ∈ filePkgs E l)
+    (hlater : ∀ l' ∈ lpost, ∀ p ∈ filePkgs E l', p.id ≠ pL.id) : l.hash ∉ lpost.map (·.hash) := by
+  intro hm
+  obtain ⟨l', hl', hh⟩ := List.mem_map.1 hm
+  have hl'mem : l' ∈ layers := by rw [hl]; simp [hl']
+  have hent := ht.digests l' hl'mem l (by rw [hl]; simp) hh
+  have : pL ∈ filePkgs E l' := by rw [filePkgs_congr E hent]; exact hpL
+  exact hlater l' hl' pL this rfl
+
+/-! ### the composition theorem -/
+
+theorem delOf_lang {S : Scanners} {layers : List FSLayer} {id : String} {p : Pkg} {e0 : Env} {es : List Env} {h : String}
+    (hws : aget id (merged S layers).envs = some (e0 :: es)) (hall : ∀ e ∈ e0 :: es, e.intro = h) :
+    delOf (layers.map (·.hash)) (merged S layers) id p =
+      pkgDeleted (layers.map (·.hash)) (merged S layers).files p h := by
+  unfold delOf
+  rw [hws]
+  simp only
+  rw [hall e0 List.mem_cons_self, pkgLayer_const _ _ _ fun e he => hall e (List.mem_cons_of_mem _ he)]
+
+theorem hex_id (S : Scanners) (layers : List FSLayer) (_ht : Tame S layers) (r : Report)
+    (hr : resolve (layers.map (·.hash)) (merged S layers) = some r) (id : String) (p : Pkg)
+    (hp : aget id (merged S layers).pkgs = some p) (hdel : delOf (layers.map (·.hash)) (merged S layers) id p = false) :
+    aget id r.envs = aget id (merged S layers).envs :=
+  (resolve_exact (layers.map (·.hash)) (merged S layers) r (merged_inv S layers) (merged_uniq S layers).pkgs hr id).2 p hp hdel
+
+theorem index_eq_flatten {S : Scanners} {layers : List FSLayer} (ht : Tame S layers) :
+    ∃ r, indexModel S layers = some r ∧
+      ∀ id db, (∃ es, aget id r.envs = some es ∧ ∃ e ∈ es, e.db = db) ↔
+        ∃ p ∈ scanImage S layers, p.id = id ∧ p.db = db := by
+  obtain ⟨r, hr, _⟩ := resolve_ok (layers.map (·.hash)) (merged S layers) (merged_inv S layers)
+  refine ⟨r, by rw [indexModel_eq]; exact hr, ?_⟩
+  intro id db
+  have hex := resolve_exact (layers.map (·.hash)) (merged S layers) r (merged_inv S layers) (merged_uniq S layers).pkgs hr id
+  constructor
+  · -- report ⇒ image
+    rintro ⟨es, hes, e, he, hdb⟩
+    obtain ⟨hMenvs, p, hMp, hnd⟩ := hex.1 es hes
+    rcases (mergeSR_envs _ {} (by simp [KeysUniq]) id e).1 ⟨es, hMenvs, he⟩ with ⟨es0, h0, _⟩ | ⟨rr, hrr, es', h1, h2⟩
+    · simp at h0
+    · rcases reps_cases hrr with hos | ⟨E, hE, hlang⟩ | hwh
+      · obtain ⟨q, hq, hqid, hqdb⟩ := db_env_scan ht hos h1 h2
+        exact ⟨q, hq, hqid, by rw [hqdb, hdb]⟩
+      · subst hlang
+        have hg := aget_of_mem_uniq (fileRep_uniq ht hE).1 h1
+        obtain ⟨g1, _⟩ := fileRep_get ht hE id
+        rw [hg] at g1
+        cases hlast : lastLang id (layers.map (fileArts E)) with
+        | none => rw [hlast] at g1; simp at g1
+        | some apl =>
+          obtain ⟨a, pL⟩ := apl
+          rw [hlast] at g1
+          simp only [Option.some.injEq] at g1
+          rw [g1] at h2
+          simp only [List.mem_singleton] at h2
+          obtain ⟨lpre, l, lpost, hl, ha, hpL, hpid, hlater⟩ := lastLang_layers hlast
+          have hlmem : l ∈ layers := by rw [hl]; simp
+          have hpLall : pL ∈ allFilePkgs S l := mem_allFilePkgs.2 ⟨E, hE, hpL⟩
+          have hhash : l.hash ∉ lpost.map (·.hash) :=
+            lastLang_hash_last ht hl hpL (fun l' hl' q hq => by rw [hpid]; exact hlater l' hl' q hq)
+          obtain ⟨⟨ws, hws, _, hall⟩, hMpL⟩ := merged_file_id ht hE hlast
+          rw [hMenvs] at hws; cases hws
+          rw [hMpL] at hMp; cases hMp
+          -- not deleted: no later layer hides the file
+          have hintro : ∀ e' ∈ es, e'.intro = l.hash := by
+            intro e' he'; rw [hall e' he', ha]; rfl
+          have hnothid : ∀ l' ∈ lpost, hides l' p.fp = false := by
+            intro l' hl'
+            cases hh : hides l' p.fp with
+            | false => rfl
+            | true =>
+              have := (pkgDeleted_iff_hidden ht hl hhash hlmem hpLall).2 ⟨l', hl', hh⟩
+              cases es with
+              | nil => simp at he
+              | cons e0 es0 =>
+                have hdel := delOf_lang (p := p) hMenvs hintro
+                rw [hnd, this] at hdel; simp at hdel
+          obtain ⟨q, c, hmem, hwq, hat⟩ := mem_filePkgs.1 hpL
+          obtain ⟨hfp, p00, hscan, hid00, _⟩ := filePkgsAt_mem hat
+          have hfile : fileOf l q = some c := fileOf_of_mem (ht.paths l hlmem) hmem hwq
+          have hpres : present layers q = some c := by
+            rw [present_some_iff]
+            refine ⟨lpre, l, lpost, hl, hfile, fun l' hl' => ⟨?_, by rw [← hfp]; exact hnothid l' hl'⟩⟩
+            cases hf' : fileOf l' q with
+            | none => rfl
+            | some c' =>
+              exfalso
+              have hpw := ht.noOverwrite E hE
+              rw [hl, List.pairwise_append] at hpw
+              rcases (List.pairwise_cons.1 hpw.2.1).1 l' hl' (q, Entry.file c) hmem c hfile p00 hscan c' hf' with
+                ⟨p', hs', hid'⟩ | hhid
+              · obtain ⟨hm', hw'⟩ := fileOf_some hf'
+                have : ({ p' with fp := q } : Pkg) ∈ filePkgs E l' :=
+                  mem_filePkgs.2 ⟨q, c', hm', hw', List.mem_map.2 ⟨p', hs', rfl⟩⟩
+                apply hlater l' hl' _ this
+                simp only
+                rw [hid', ← hid00, hpid]
+              · have := hnothid l' hl'
+                rw [hfp] at this
+                simp only at hhid
+                rw [this] at hhid; simp at hhid
+          refine ⟨p, ?_, hpid, ?_⟩
+          · unfold scanImage
+            apply List.mem_append_right
+            rw [List.mem_flatMap]
+            refine ⟨E, hE, ?_⟩
+            rw [List.mem_flatMap]
+            exact ⟨(q, c), (mem_flatten_iff layers q c).2 hpres, hat⟩
+          · rw [← hdb, h2]; rfl
+      · subst hwh; simp [whRep] at h1
+  · -- image ⇒ report
+    rintro ⟨p, hp, hid, hdb⟩
+    unfold scanImage at hp
+    rcases List.mem_append.1 hp with hos | hlang
+    · obtain ⟨d, hd, hpd⟩ := List.mem_flatMap.1 hos
+      cases hpres : present layers d with
+      | none => simp [hpres] at hpd
+      | some c =>
+        simp only [hpres] at hpd
+        obtain ⟨rdb, hrdb, es, hes, e, he, hedb⟩ := db_scan_env ht hd hpres hpd
+        obtain ⟨hpdb, _, p00, hp00, hid00⟩ := mem_osPkgsOf hpd
+        have hin := dbRep_mem_reps (layers := layers) hrdb
+        obtain ⟨ws, hws0, hews⟩ := (mergeSR_envs _ {} (by simp [KeysUniq]) p.id e).2
+          (Or.inr ⟨_, hin, es, mem_of_aget hes, he⟩)
+        have hws : aget p.id (merged S layers).envs = some ws := hws0
+        have hpk := ((merged_inv S layers).envOk p.id ws (mem_of_aget hws)).1
+        cases hMp : aget p.id (merged S layers).pkgs with
+        | none => rw [hMp] at hpk; simp at hpk
+        | some p' =>
+          have hfp : p'.fp = "" := by
+            rcases mergeSR_pkgs_from _ _ p.id p' (mem_of_aget hMp) with h0 | ⟨rr, hrr, h1⟩
+            · simp at h0
+            · rcases reps_cases hrr with h3 | ⟨E, hE, h3⟩ | h3
+              · exact (os_pkg_origin h3 h1).1
+              · exfalso
+                subst h3
+                obtain ⟨l, hlmem, pL, hpL, hpid⟩ := fileRep_id_origin ht hE (Or.inr (aget_isSome_of_mem h1))
+                obtain ⟨pre, l2, post, hl2, hc2, _⟩ := (present_some_iff layers d c).1 hpres
+                have hl2mem : l2 ∈ layers := by rw [hl2]; simp
+                exact ht.disjoint d hd l2 hl2mem c hc2 p00 hp00 l hlmem pL (mem_allFilePkgs.2 ⟨E, hE, hpL⟩)
+                  (by rw [← hid00, hpid])
+              · subst h3; simp [whRep] at h1
+          have hdel : delOf (layers.map (·.hash)) (merged S layers) p.id p' = false := by
+            unfold delOf
+            rw [hws]
+            cases ws with
+            | nil => rfl
+            | cons e0 es0 => exact pkgDeleted_nofp ht p' hfp _
+          have := hex_id S layers ht r hr p.id p' hMp hdel
+          refine ⟨ws, by rw [← hid, this]; exact hws, e, hews, by rw [hedb, ← hdb, hpdb]⟩
+    · obtain ⟨E, hE, hin⟩ := List.mem_flatMap.1 hlang
+      obtain ⟨⟨q, c⟩, hqc, hat⟩ := List.mem_flatMap.1 hin
+      simp only at hat
+      have hpres := (mem_flatten_iff layers q c).1 hqc
+      obtain ⟨pre, l, post, hl, hfile, hpost⟩ := (present_some_iff layers q c).1 hpres
+      have hlmem : l ∈ layers := by rw [hl]; simp
+      obtain ⟨hm, hw⟩ := fileOf_some hfile
+      have hpl : p ∈ filePkgs E l := mem_filePkgs.2 ⟨q, c, hm, hw, hat⟩
+      have hfp := (filePkgsAt_mem hat).1
+      obtain ⟨a, pL, hlast⟩ := lastLang_exists hlmem hpl
+      obtain ⟨lpre, l2, lpost, hl2, ha, hpL, hpid, hlater⟩ := lastLang_layers hlast
+      have hl2mem : l2 ∈ layers := by rw [hl2]; simp
+      obtain ⟨hfpL0, hdbL⟩ := ht.onePath E hE l2 hl2mem l hlmem pL hpL p hpl hpid
+      have hfpL : pL.fp = q := by rw [← hfp]; exact hfpL0
+      have hsame : pre = lpre ∧ l = l2 ∧ post = lpost := by
+        rcases two_decomp (hl.symm.trans hl2) with h | h | h
+        · exact h
+        · exfalso
+          obtain ⟨q', c', hm', hw', hat'⟩ := mem_filePkgs.1 hpL
+          have hq' : q' = q := by rw [← (filePkgsAt_mem hat').1]; exact hfpL
+          subst hq'
+          have := fileOf_of_mem (ht.paths l2 hl2mem) hm' hw'
+          rw [(hpost l2 h).1] at this; simp at this
+        · exfalso; exact hlater l h p hpl rfl
+      obtain ⟨_, hl12, hpost12⟩ := hsame
+      subst hl12; subst hpost12
+      have hpLall : pL ∈ allFilePkgs S l := mem_allFilePkgs.2 ⟨E, hE, hpL⟩
+      have hhash : l.hash ∉ post.map (·.hash) :=
+        lastLang_hash_last ht hl hpL (fun l' hl' q' hq' => by rw [hpid]; exact hlater l' hl' q' hq')
+      obtain ⟨⟨ws, hws, hmem, hall⟩, hMp⟩ := merged_file_id ht hE hlast
+      have hintro : ∀ e' ∈ ws, e'.intro = l.hash := by
+        intro e' he'; rw [hall e' he', ha]; rfl
+      have hdel : delOf (layers.map (·.hash)) (merged S layers) p.id pL = false := by
+        cases ws with
+        | nil => simp at hmem
+        | cons e0 es0 =>
+          rw [delOf_lang hws hintro]
+          cases hd : pkgDeleted (layers.map (·.hash)) (merged S layers).files pL l.hash with
+          | false => rfl
+          | true =>
+            exfalso
+            obtain ⟨l', hl', hh⟩ := (pkgDeleted_iff_hidden ht hl hhash hlmem hpLall).1 hd
+            rw [hfpL, (hpost l' hl').2] at hh; simp at hh
+      have := hex_id S layers ht r hr p.id pL hMp hdel
+      refine ⟨ws, by rw [← hid, this]; exact hws, langEnv a pL, hmem, ?_⟩
+      rw [← hdb, ← hdbL]; rfl
+
+/-! ### executable forms of the two sides -/
+
+/-- the finished report lists package `id` with package database `db` -/
+def reportHas (r : Report) (id db : String) : Bool := ((aget id r.envs).getD []).any fun e => e.db = db
+
+/-- the scanners find package `id` with package database `db` on the flattened image -/
+def imageHas (S : Scanners) (layers : List FSLayer) (id db : String) : Bool :=
+  (scanImage S layers).any fun p => p.id = id ∧ p.db = db
+
+theorem reportHas_iff (r : Report) (id db : String) :
+    reportHas r id db = true ↔ ∃ es, aget id r.envs = some es ∧ ∃ e ∈ es, e.db = db := by
+  unfold reportHas
+  cases h : aget id r.envs with
+  | none => simp
+  | some es => simp [List.any_eq_true]
+
+theorem imageHas_iff (S : Scanners) (layers : List FSLayer) (id db : String) :
+    imageHas S layers id db = true ↔ ∃ p ∈ scanImage S layers, p.id = id ∧ p.db = db := by
+  simp [imageHas, List.any_eq_true]
+
+/-! ### example scanners and stacks (witnesses for Props/C01) -/
+
+namespace Ex
+
+def mk (id db : String) : Pkg :=
+  { id := id, name := id, version := "1", kind := "binary", arch := "", src := "", db := db, fp := "" }
+
+def dpkgDB : String := "var/lib/dpkg/status"
+
+/-- toy language ecosystem: the file content names the package; the package database is derived from the path -/
+def langEco : FileEco where
+  scan := fun q c =>
+    if c = "requests1" then [mk "requests-1" ("lang:" ++ q)]
+    else if c = "requests2" then [mk "requests-2" ("lang:" ++ q)]
+    else if c = "leftpad1" then [mk "left-pad-1" ("lang:" ++ q)]
+    else if c = "leftpad2" then [mk "left-pad-2" ("lang:" ++ q)]
+    else if c = "X" then [mk "X" ("lang:" ++ q)]
+    else []
+
+/-- toy Go ecosystem: an executable carries its standard library, main module and dependencies -/
+def goEco : FileEco where
+  gobin := true
+  scan := fun q c =>
+    if c = "app1" then [mk "stdlib-1.21" ("go:" ++ q), mk "app-1" ("go:" ++ q), mk "dep-1" ("go:" ++ q)]
+    else if c = "app2" then [mk "stdlib-1.22" ("go:" ++ q), mk "app-2" ("go:" ++ q), mk "dep-1b" ("go:" ++ q)]
+    else if c = "tool1" then [mk "stdlib-1.21" ("go:" ++ q), mk "tool-1" ("go:" ++ q)]
+    else if c = "odd" then [mk "odd-1" ("exe:" ++ q)]
+    else []
+
+/-- toy scanners: an OS database whose content names its packages, a language ecosystem, a Go ecosystem;
+    the distribution scanner reads `etc/os-release` -/
+def S0 : Scanners where
+  osDbs := [dpkgDB]
+  scanDB := fun d c =>
+    if c = "bash1" then [mk "bash-1" d]
+    else if c = "bash2+curl" then [mk "bash-2" d, mk "curl-7" d]
+    else if c = "bash1+curl" then [mk "bash-1" d, mk "curl-7" d]
+    else if c = "X" then [mk "X" d]
+    else []
+  fecos := [langEco, goEco]
+  scanDist := fun _ _ c => if c = "debian11" then some { id := "debian-11" } else if c = "debian12" then some { id := "debian-12" } else none
+
+/-- install, upgrade (old files whited out), remove, a Go executable moved and rebuilt, an unrelated
+    file, a layer applied twice: inside the hypothesis -/
+def tameStack : List FSLayer := [
+  { hash := "L0", entries := [(dpkgDB, .file "bash1"), ("etc/os-release", .file "debian12"),
+      ("site/requests-1.dist-info/METADATA", .file "requests1"),
+      ("app/node_modules/left-pad/package.json", .file "leftpad1"), ("usr/bin/app", .file "app1")] },
+  { hash := "L1", entries := [(dpkgDB, .file "bash2+curl"), ("site/.wh.requests-1.dist-info", .file ""),
+      ("site/requests-2.dist-info/METADATA", .file "requests2")] },
+  { hash := "L2", entries := [("app/node_modules/.wh.left-pad", .file ""), ("srv/readme", .file "hello")] },
+  { hash := "L3", entries := [("usr/bin/.wh.app", .file ""), ("usr/local/bin/app", .file "app2")] },
+  { hash := "L2", entries := [("app/node_modules/.wh.left-pad", .file ""), ("srv/readme", .file "hello")] }]
+
+def rpmDB : String := "var/lib/rpm/rpmdb.sqlite"
+
+/-- the same toy scanners with the OS database coalesced by rhel.Coalescer -/
+def S1 : Scanners := { S0 with osDbs := [], rhelDbs := [rpmDB] }
+
+/-- install, upgrade, an unrelated layer, with an rpm-style database under the rhel coalescer -/
+def rhelStack : List FSLayer := [
+  { hash := "L0", entries := [(rpmDB, .file "bash1"), ("site/requests-1.dist-info/METADATA", .file "requests1")] },
+  { hash := "L1", entries := [(rpmDB, .file "bash2+curl")] },
+  { hash := "L2", entries := [("srv/readme", .file "hello")] },
+  { hash := "L3", entries := [("site/.wh.requests-1.dist-info", .file "")] }]
+
+/-- two whiteouts in one layer -/
+def twoWhiteouts : List FSLayer := [
+  { hash := "L0", entries := [("a/x", .file "requests1"), ("b/y", .file "leftpad1")] },
+  { hash := "L1", entries := [("a/.wh.x", .file ""), ("b/.wh.y", .file "")] }]
+
+/-- a package file overwritten in place -/
+def overwritten : List FSLayer := [
+  { hash := "L0", entries := [("app/node_modules/left-pad/package.json", .file "leftpad1")] },
+  { hash := "L1", entries := [("app/node_modules/left-pad/package.json", .file "leftpad2")] }]
+
+/-- a Go executable rebuilt in place with another dependency version -/
+def goRebuilt : List FSLayer := [
+  { hash := "L0", entries := [("usr/bin/app", .file "app1")] },
+  { hash := "L1", entries := [("usr/bin/app", .file "app2")] }]
+
+/-- the same package at two paths -/
+def twoPaths : List FSLayer := [
+  { hash := "L0", entries := [("a/m", .file "requests1"), ("b/m", .file "requests1")] }]
+
+/-- two Go executables built with the same toolchain: they share the `stdlib` package -/
+def twoGoBinaries : List FSLayer := [
+  { hash := "L0", entries := [("usr/bin/app", .file "app1"), ("usr/bin/tool", .file "tool1")] }]
+
+/-- … and the one whose environment survived is deleted later -/
+def twoGoBinariesOneDeleted : List FSLayer := [
+  { hash := "L0", entries := [("usr/bin/app", .file "app1"), ("usr/bin/tool", .file "tool1")] },
+  { hash := "L1", entries := [("usr/bin/.wh.tool", .file "")] }]
+
+/-- the OS package database deleted by a later layer -/
+def dbRemoved : List FSLayer := [
+  { hash := "L0", entries := [(dpkgDB, .file "bash1")] },
+  { hash := "L1", entries := [("var/lib/.wh.dpkg", .file "")] }]
+
+/-- the OS package database rewritten with no entries -/
+def dbEmptied : List FSLayer := [
+  { hash := "L0", entries := [(dpkgDB, .file "bash1")] },
+  { hash := "L1", entries := [(dpkgDB, .file "")] }]
+
+/-- an OS package and a language package under one id; the language file is deleted later -/
+def sharedId : List FSLayer := [
+  { hash := "L0", entries := [(dpkgDB, .file "X"), ("a/f", .file "X")] },
+  { hash := "L1", entries := [("a/.wh.f", .file "")] }]
+
+/-- an opaque marker at the root of a layer -/
+def rootOpaque : List FSLayer := [
+  { hash := "L0", entries := [("a/x", .file "requests1")] },
+  { hash := "L1", entries := [(".wh..wh..opq", .file "")] }]
+
+/-- a regular file replaces the directory that held the package -/
+def dirReplaced : List FSLayer := [
+  { hash := "L0", entries := [("a/x", .file "requests1")] },
+  { hash := "L1", entries := [("a", .file "not a directory any more")] }]
+
+/-- a distribution upgrade: the release file changes, a package of the old release stays installed -/
+def distUpgrade : List FSLayer := [
+  { hash := "L0", entries := [(dpkgDB, .file "bash1"), ("etc/os-release", .file "debian11")] },
+  { hash := "L1", entries := [(dpkgDB, .file "bash1+curl"), ("etc/os-release", .file "debian12")] }]
+
+/-- a DIRECTORY whose name starts with `.wh.`: the whiteout scanner reports every entry with such a name,
+    the layer semantics only act on regular files -/
+def whiteoutDirectory : List FSLayer := [
+  { hash := "L0", entries := [("a/x", .file "requests1")] },
+  { hash := "L1", entries := [("a/.wh.x", .dir)] }]
+
+/-- two different layers under one digest (a digest collision: the layer sorter cannot tell them apart) -/
+def digestCollision : List FSLayer := [
+  { hash := "L0", entries := [("a/x", .file "requests1")] },
+  { hash := "L0", entries := [("a/.wh.x", .file "")] }]
+
+/-- a layer listing one path twice (the flattened image takes the first entry, the package scan sees both) -/
+def pathTwice : List FSLayer := [
+  { hash := "L0", entries := [("a/x", .file "requests1"), ("a/x", .file "requests2")] }]
+
+/-- a Go executable whose packages carry a database without the `go:` prefix -/
+def goOddDb : List FSLayer := [
+  { hash := "L0", entries := [("usr/bin/odd", .file "odd")] }]
+
+/-- two language ecosystems whose scanners find the same (name, version): pypi `six` and npm `six` -/
+def pyEco : FileEco where
+  scan := fun q c => if c = "six-py" then [mk "six-1" ("python:" ++ q)] else []
+
+def jsEco : FileEco where
+  scan := fun q c => if c = "six-js" then [mk "six-1" ("nodejs:" ++ q)] else []
+
+def S2 : Scanners := { S0 with osDbs := [], fecos := [pyEco, jsEco] }
+
+/-- the same scanners, the coalescers finishing in the other order -/
+def S2' : Scanners := { S0 with osDbs := [], fecos := [jsEco, pyEco] }
+
+/-- the python one is deleted by a later layer -/
+def crossEco : List FSLayer := [
+  { hash := "L0", entries := [("a/p", .file "six-py"), ("b/j", .file "six-js")] },
+  { hash := "L1", entries := [("a/.wh.p", .file "")] }]
+
+/-- the two sides disagree on (id, db): reported but not in the image -/
+def reportedNotInImage (S : Scanners) (layers : List FSLayer) (id db : String) : Prop :=
+  (indexModel S layers).map (fun r => reportHas r id db) = some true ∧ imageHas S layers id db = false
+
+/-- … in the image but not reported -/
+def inImageNotReported (S : Scanners) (layers : List FSLayer) (id db : String) : Prop :=
+  (indexModel S layers).map (fun r => reportHas r id db) = some false ∧ imageHas S layers id db = true
+
+instance (S : Scanners) (layers : List FSLayer) (id db : String) : Decidable (reportedNotInImage S layers id db) := by
+  unfold reportedNotInImage; infer_instance
+
+instance (S : Scanners) (layers : List FSLayer) (id db : String) : Decidable (inImageNotReported S layers id db) := by
+  unfold inImageNotReported; infer_instance
+
+end Ex
+
+end ClairModel.LayerFS
